@@ -1,5 +1,6 @@
 import TruthModel.Model.Fmt
 import TruthModel.Model.FmtExpr
+import TruthModel.Model.FmtStmt
 /-
 C08 — printed scripts parse back to the same script: the literal layer.
 
@@ -35,7 +36,17 @@ Proved here, for ALL inputs of the model (`Model/Fmt.lean`):
   block style at any width carry exactly the tokens of `printExpr`); `glue_sites_fail` and
   `negative_literal_gains_parens` (the property is false exactly at the excluded shapes).
 
-Not proved (searched on the implementation by the harness): the statement / item / meta grammar,
+* the STATEMENT layer (`Model/FmtStmt.lean`), last section of this file: `stmt_print_parse` /
+  `block_print_parse` (for every statement / block inside `OKS` / `OKB` the recursive-descent model of
+  the grammar's statement rules accepts the tokens the model of `impl Format for ast::Stmt / StmtKind /
+  Block` writes and returns the same statement up to `normK`), `stmt_print_idempotent`,
+  `stmt_print_parse_print`, `stmt_layout_tokens` / `block_layout_tokens` / `stmt_print_parse_at_width`
+  (at every width at which the formatter does not trip its label assertion the laid-out statement
+  carries exactly the tokens of `printStmt`), `stmt_print_parse_every_width` (a statement whose labels
+  hold no call is printed at every width and its tokens parse back), `rel_label_plus_glue`,
+  `label_break_panics`.
+
+Not proved (searched on the implementation by the harness): the item / meta grammar,
 float literals (`showF32`/`readF32` are Rust's `Display`/`FromStr`), and that the joined text of an
 expression lexes to the written tokens (`LexOK`, compared with the real lexer on every generated
 expression).  The full property is kept as `printed_scripts_parse_back_full`.
@@ -2477,5 +2488,1993 @@ theorem printed_scripts_parse_back_partial :
     (∀ w e, commaTok (ess (renderExprPieces w e)) = tokTexts (printExpr e)) :=
   ⟨int_print_parse, string_print_lex_parse, layout_tokens, expr_print_parse, expr_print_idempotent,
     expr_layout_printExpr⟩
+
+
+/-! # the statement layer
+
+C08, STATEMENT layer: printed statements and blocks parse back to the same statement / block.
+
+Model: `Model/FmtStmt.lean` (`printKind` … the tokens `impl Format for ast::Stmt / StmtKind / Block`
+write; `pKind` … a recursive-descent parser for the statement rules of the grammar; `rKind` … the
+layout).  The expression layer is used through its interface theorems
+(`C08.good`, `C08.expr_print_parse_in_context`, `C08.goodAs`).
+
+* `stmt_print_parse` / `block_print_parse`: for every statement / block inside `OKS` / `OKB`
+  (embedded expressions `NoGlue`, names that are identifier tokens, declarations of plain
+  identifiers, a difficulty label only on a physical statement, no `+ ++x:` label) the parser
+  accepts the printed tokens and returns the same tree up to `normK` (expressions in their normal
+  form, `at_symbol` set).
+* `stmt_print_idempotent`, `stmt_print_parse_print`.
+* `stmt_layout_tokens` / `block_layout_tokens`: at every width at which the formatter does not
+  trip its label assertion the laid-out tokens are the tokens of `printStmt` / `printBlock`.
+-/
+
+open TruthModel.FmtStmt
+
+/-! ## classification of the statement tokens -/
+
+@[simp] theorem cl_semi : classify tSemi = .semi := by decide
+@[simp] theorem cl_lbrace : classify tLbrace = .bad := by decide
+@[simp] theorem cl_rbrace : classify tRbrace = .bad := by decide
+@[simp] theorem cl_plus : classify tPlus = .op .add := by decide
+@[simp] theorem cl_async : classify tAsync = .bad := by decide
+@[simp] theorem cl_else : classify tElse = .bad := by decide
+@[simp] theorem cl_while : classify tWhile = .bad := by decide
+
+@[simp] theorem sk_lbrace : sk tLbrace = .lbrace := by decide
+@[simp] theorem sk_rbrace : sk tRbrace = .rbrace := by decide
+@[simp] theorem sk_semi : sk tSemi = .other := by decide
+@[simp] theorem sk_colon : sk tColon = .other := by decide
+@[simp] theorem sk_lp : sk tLp = .other := by decide
+@[simp] theorem sk_rp : sk tRp = .other := by decide
+@[simp] theorem sk_lb : sk tLb = .other := by decide
+@[simp] theorem sk_rb : sk tRb = .other := by decide
+@[simp] theorem sk_at : sk tAt = .other := by decide
+@[simp] theorem sk_comma : sk tComma = .other := by decide
+@[simp] theorem sk_plus : sk tPlus = .other := by decide
+@[simp] theorem sk_minus : sk tMinus = .other := by decide
+@[simp] theorem sk_dollar : sk tDollar = .other := by decide
+@[simp] theorem sk_percent : sk tPercent = .other := by decide
+@[simp] theorem sk_reg : sk tReg = .other := by decide
+@[simp] theorem sk_return : sk tReturn = .kReturn := by decide
+@[simp] theorem sk_else : sk tElse = .kElse := by decide
+@[simp] theorem sk_do : sk tDo = .kDo := by decide
+@[simp] theorem sk_while : sk tWhile = .kWhile := by decide
+@[simp] theorem sk_times : sk tTimes = .kTimes := by decide
+@[simp] theorem sk_loop : sk tLoop = .kLoop := by decide
+@[simp] theorem sk_goto : sk tGoto = .kGoto := by decide
+@[simp] theorem sk_break : sk tBreak = .kBreak := by decide
+@[simp] theorem sk_interrupt : sk tInterrupt = .kInterrupt := by decide
+@[simp] theorem sk_async : sk tAsync = .kAsync := by decide
+@[simp] theorem sk_assign : sk tAssign = .aop .assign := by decide
+@[simp] theorem sk_int (s : List Char) : sk (.int s) = .other := rfl
+@[simp] theorem sk_float (s : List Char) : sk (.float s) = .other := rfl
+@[simp] theorem sk_str (s : List Char) : sk (.str s) = .other := rfl
+@[simp] theorem sk_aop (op : AssignOp) : sk op.tok = .aop op := by cases op <;> decide
+@[simp] theorem sk_condkw (kw : CondKw) : sk kw.tok = (match kw with | .if_ => .kIf | .unless => .kUnless) := by
+  cases kw <;> decide
+@[simp] theorem sk_ty (k : TypeKw) : sk k.tok = .ty k := by cases k <;> decide
+@[simp] theorem sk_xcr (inc : Bool) : sk (xcrTok inc) = .other := by cases inc <;> decide
+@[simp] theorem sk_labelKw (k : LabelKw) : sk (.word k.text) = .other := by cases k <;> decide
+
+theorem cl_aop_ne_semi (op : AssignOp) : classify op.tok ≠ .semi := by cases op <;> decide
+theorem cl_aop_ne_colon (op : AssignOp) : classify op.tok ≠ .colon := by cases op <;> decide
+
+/-- the words `wordSK` knows -/
+def stmtKeywords : List (List Char) :=
+  [['r', 'e', 't', 'u', 'r', 'n'], ['i', 'f'], ['u', 'n', 'l', 'e', 's', 's'], ['e', 'l', 's', 'e'], ['d', 'o'],
+   ['w', 'h', 'i', 'l', 'e'], ['t', 'i', 'm', 'e', 's'], ['l', 'o', 'o', 'p'], ['g', 'o', 't', 'o'], ['b', 'r', 'e', 'a', 'k'],
+   ['i', 'n', 't', 'e', 'r', 'r', 'u', 'p', 't'], ['a', 's', 'y', 'n', 'c'], ['i', 'n', 't'], ['f', 'l', 'o', 'a', 't'],
+   ['s', 't', 'r', 'i', 'n', 'g'], ['v', 'a', 'r'], ['v', 'o', 'i', 'd']]
+
+theorem wordSK_other (w : List Char) (h : w ∉ stmtKeywords) : wordSK w = .other := by
+  simp only [stmtKeywords, List.mem_cons, List.not_mem_nil, or_false, not_or] at h
+  simp [wordSK, h]
+
+theorem stmtKeywords_facts : ∀ w ∈ stmtKeywords, identOK w = false ∧ wordSK w ≠ .lbrace ∧ wordSK w ≠ .rbrace ∧
+    (wordSK w = .kElse → wordClass w = .bad) := by decide
+
+/-- a word that is an identifier for the grammar is no statement keyword -/
+theorem sk_ident {w : List Char} (h : identOK w = true) : sk (.word w) = .other := by
+  by_cases hm : w ∈ stmtKeywords
+  · have := (stmtKeywords_facts w hm).1
+    rw [h] at this; cases this
+  · exact wordSK_other w hm
+
+theorem sk_punct_cases (s : List Char) :
+    (s = ['{'] ∧ sk (.punct s) = .lbrace) ∨ (s = ['}'] ∧ sk (.punct s) = .rbrace) ∨
+    (∃ op, sk (.punct s) = .aop op) ∨ sk (.punct s) = .other := by
+  by_cases h1 : s = ['{']
+  · left; exact ⟨h1, by simp [sk, h1]⟩
+  · by_cases h2 : s = ['}']
+    · right; left; exact ⟨h2, by subst h2; decide⟩
+    · cases h3 : assignOpOfText s with
+      | none => right; right; right; simp [sk, h1, h2, h3]
+      | some op => right; right; left; exact ⟨op, by simp [sk, h1, h2, h3]⟩
+
+/-- the tokens that open / close a block and `else` are not tokens an expression starts with -/
+theorem startsExpr_sk {t : Tok} (h : startsExpr (some (classify t)) = true) :
+    sk t ≠ .lbrace ∧ sk t ≠ .rbrace ∧ sk t ≠ .kElse := by
+  cases t with
+  | punct s =>
+    rcases sk_punct_cases s with ⟨rfl, _⟩ | ⟨rfl, _⟩ | ⟨op, ho⟩ | ho
+    · revert h; decide
+    · revert h; decide
+    · rw [ho]; simp
+    · rw [ho]; simp
+  | word w =>
+    by_cases hm : w ∈ stmtKeywords
+    · obtain ⟨_, h2, h3, h4⟩ := stmtKeywords_facts w hm
+      refine ⟨h2, h3, ?_⟩
+      intro he
+      have hb : classify (.word w) = .bad := h4 he
+      rw [hb] at h
+      cases h
+    · have : sk (.word w) = .other := wordSK_other w hm
+      rw [this]; simp
+  | int s => simp [sk]
+  | float s => simp [sk]
+  | str s => simp [sk]
+  | difficulty s => simp [sk]
+
+/-! ## the expression parser on raw tokens -/
+
+theorem hd_eq (toks : List Tok) : (toks.map classify).head? = hd toks := by
+  cases toks <;> rfl
+
+theorem drop_map_len (a b : List Tok) : (a ++ b).drop ((a ++ b).length - (b.map classify).length) = b := by
+  have : (a ++ b).length - (b.map classify).length = a.length := by simp
+  rw [this]
+  exact List.drop_left' rfl
+
+/-- `Expr` inside a context that closes it (`)`, `,`, `]`, `;`), parentheses suppressed or not -/
+theorem exprAt_print (e : Expr) (h : NoGlue e = true) (sup : Bool) (f : Nat) (hf : cost e + 12 ≤ f)
+    (rest : List Tok) (hc : closes (hd rest) = true) : exprAt f (printE sup e ++ rest) = some (norm e, rest) := by
+  unfold exprAt
+  rw [List.map_append, expr_print_parse_in_context e h sup f hf (rest.map classify) (by rw [hd_eq]; exact hc)]
+  simp only
+  rw [drop_map_len]
+
+/-- `ExprNoColon` in front of a token that no operator tier continues with (`;`, `:`, `async` …) -/
+theorem exprNCAt_print (e : Expr) (h : NoGlue e = true) (f : Nat) (hf : cost e + 11 ≤ f)
+    (rest : List Tok) (hst : stopsTerm (hd rest) = true) (hb : binOpOf (hd rest) = none) :
+    exprNCAt f (printE false e ++ rest) = some (norm e, rest) := by
+  unfold exprNCAt
+  rw [List.map_append, (good e h).level 0 (by omega) f (rest.map classify) (by omega) (by rw [hd_eq]; exact hst)
+    (fun op hop => by rw [hd_eq, hb] at hop; cases hop)]
+  simp only
+  rw [drop_map_len]
+
+theorem itemsAt_print (as : Exprs) (h : NoGlueAs as = true) (f : Nat) (hf : costAs as ≤ f) (rest : List Tok) :
+    itemsAt f (printArgs as ++ tRp :: rest) = some ((.nil, normAs as), rest) := by
+  unfold itemsAt
+  have := goodAs as h f (rest.map classify) hf
+  rw [List.map_append, List.map_cons, cl_rp, this]
+  simp only
+  have h2 := drop_map_len (printArgs as ++ [tRp]) rest
+  simpa using h2
+
+/-! ## small steps of the statement parser -/
+
+@[simp] theorem hd_cons (t : Tok) (r : List Tok) : hd (t :: r) = some (classify t) := rfl
+@[simp] theorem hs_cons (t : Tok) (r : List Tok) : hs (t :: r) = some (sk t) := rfl
+@[simp] theorem hd_nil : hd [] = none := rfl
+@[simp] theorem hs_nil : hs [] = none := rfl
+
+theorem braces_append (ts rest : List Tok) : braces ts ++ rest = tLbrace :: (ts ++ tRbrace :: rest) := by
+  simp [braces]
+
+/-- the first token of a printed expression starts an expression -/
+theorem printE_head (e : Expr) (h : NoGlue e = true) :
+    ∃ t0 r0, printE false e = t0 :: r0 ∧ startsExpr (some (classify t0)) = true := by
+  obtain ⟨t, r, htr, hs⟩ := (good e h).head
+  cases hp : printE false e with
+  | nil => rw [hp] at htr; cases htr
+  | cons t0 r0 =>
+    rw [hp] at htr
+    simp only [List.map_cons, List.cons.injEq] at htr
+    exact ⟨t0, r0, rfl, by rw [htr.1]; exact hs⟩
+
+theorem startsExpr_ne_semi {t : PTok} (h : startsExpr (some t) = true) : t ≠ .semi ∧ t ≠ .colon ∧ t ≠ .rp := by
+  cases t <;> simp_all [startsExpr]
+
+theorem pLitIntSigned_print (t : Int32) (rest : List Tok) :
+    pLitIntSigned (numToks (printI32 t) ++ rest) = some (t, rest) := by
+  rcases shape_printI32 t with ⟨_, hn⟩ | ⟨_, hp⟩
+  · obtain ⟨r, hr, hv⟩ := numToks_neg hn
+    rw [hr]
+    simp [pLitIntSigned, tMinus, hv]
+    decide
+  · have hv := hp.2.2.2
+    rw [numToks_plain hp]
+    simp [pLitIntSigned, hv]
+
+theorem pJump_print (j : Jump) (h : jumpOK j = true) (rest : List Tok) :
+    pJump (jumpToks j ++ tSemi :: rest) = some (j, tSemi :: rest) := by
+  cases j with
+  | brk => simp [jumpToks, pJump]
+  | goto d t =>
+    have hd' : identOK d = true := by simpa [jumpOK] using h
+    cases t with
+    | none => simp [jumpToks, pJump, cl_ident hd']
+    | some v =>
+      have := pLitIntSigned_print v (tSemi :: rest)
+      simp [jumpToks, pJump, cl_ident hd', this]
+
+theorem jumpToks_head (j : Jump) : ∃ t0 r0, jumpToks j = t0 :: r0 ∧ (sk t0 = .kGoto ∨ sk t0 = .kBreak) := by
+  cases j with
+  | brk => exact ⟨tBreak, [], rfl, Or.inr sk_break⟩
+  | goto d t => cases t <;> exact ⟨tGoto, _, rfl, Or.inl sk_goto⟩
+
+theorem pParenExpr_print (c : Expr) (h : NoGlue c = true) (f : Nat) (hf : cost c + 12 ≤ f) (rest : List Tok) :
+    pParenExpr f (tLp :: (printE true c ++ tRp :: rest)) = some (norm c, rest) := by
+  have := exprAt_print c h true f hf (tRp :: rest) (by simp [closes])
+  simp [pParenExpr, this]
+
+/-! ## fuel that suffices for a printed statement -/
+
+def needAsync : Async → Nat
+  | .id e => cost e + 11
+  | _ => 0
+
+def needD : List (Var × Option Expr) → Nat
+  | [] => 0
+  | (_, none) :: rest => needD rest + 1
+  | (_, some e) :: rest => max (cost e + 13) (needD rest + 1)
+
+mutual
+def needK : Kind → Nat
+  | .jump _ => 1
+  | .ret none => 1
+  | .ret (some e) => cost e + 13
+  | .condJump _ c _ => cost c + 13
+  | .condChain _ c b rest => max (cost c + 12) (max (needB b) (needC rest)) + 1
+  | .loop b => needB b + 1
+  | .while_ c b => max (cost c + 12) (needB b) + 1
+  | .doWhile b c => max (needB b) (cost c + 12) + 1
+  | .times _ n b => max (cost n + 12) (needB b) + 1
+  | .expr e => cost e + 13
+  | .block b => needB b + 1
+  | .assign _ _ e => cost e + 13
+  | .decl _ vars => needD vars + 1
+  | .callSub _ as _ args => max (costAs args + 16) (needAsync as) + 1
+  | .label _ => 1
+  | .interrupt e => cost e + 13
+  | .absTime _ => 1
+  | .relTime d => cost d + 12
+def needB : Block → Nat
+  | .nil => 1
+  | .cons _ k rest => max (needK k + 2) (needB rest + 1)
+def needC : Chain → Nat
+  | .nil => 1
+  | .els b => needB b + 1
+  | .elif _ c b rest => max (cost c + 12) (max (needB b) (needC rest)) + 1
+end
+
+/-! ## the leading tokens -/
+
+theorem lead_of_sk_kw {t : Tok} {r : List Tok} {l : Lead}
+    (h : (sk t = .kReturn ∧ l = .ret) ∨ (sk t = .kIf ∧ l = .cond .if_) ∨ (sk t = .kUnless ∧ l = .cond .unless) ∨
+      (sk t = .kDo ∧ l = .doW) ∨ (sk t = .kWhile ∧ l = .whileW) ∨ (sk t = .kTimes ∧ l = .times) ∨ (sk t = .kLoop ∧ l = .loop) ∨
+      (sk t = .kGoto ∧ l = .jump) ∨ (sk t = .kBreak ∧ l = .jump) ∨ (sk t = .kInterrupt ∧ l = .interrupt) ∨ (sk t = .lbrace ∧ l = .lbrace)) :
+    lead (t :: r) = l := by
+  rcases h with ⟨h, rfl⟩ | ⟨h, rfl⟩ | ⟨h, rfl⟩ | ⟨h, rfl⟩ | ⟨h, rfl⟩ | ⟨h, rfl⟩ | ⟨h, rfl⟩ | ⟨h, rfl⟩ | ⟨h, rfl⟩ | ⟨h, rfl⟩ | ⟨h, rfl⟩ <;>
+    simp [lead, h]
+
+theorem lead_other {t : Tok} {r : List Tok} (h : sk t = .other ∨ ∃ op, sk t = .aop op) :
+    lead (t :: r) = leadByClass t r := by
+  rcases h with h | ⟨op, h⟩ <;> simp [lead, h]
+
+theorem lead_lp (r : List Tok) : lead (tLp :: r) = .generic := by
+  rw [lead_other (Or.inl sk_lp)]; simp [leadByClass]
+
+theorem varToks_cases (v : Var) (hok : varOK v = true) :
+    (∃ id, varToks v = [.word id] ∧ identOK id = true) ∨ (∃ r0, varToks v = tReg :: r0) ∨
+    (∃ r0, varToks v = tDollar :: r0) ∨ (∃ r0, varToks v = tPercent :: r0) := by
+  obtain ⟨sg, nm⟩ := v
+  cases sg with
+  | none =>
+    cases nm with
+    | normal id => exact Or.inl ⟨id, rfl, by simpa [varOK] using hok⟩
+    | reg n => exact Or.inr (Or.inl ⟨_, rfl⟩)
+  | some s =>
+    cases s with
+    | int => exact Or.inr (Or.inr (Or.inl ⟨_, rfl⟩))
+    | float => exact Or.inr (Or.inr (Or.inr ⟨_, rfl⟩))
+
+theorem lead_varToks (v : Var) (hok : varOK v = true) (X : List Tok) (hX : hd X ≠ some .colon) :
+    lead (varToks v ++ X) = .generic := by
+  rcases varToks_cases v hok with ⟨id, hv, hid⟩ | ⟨r0, hv⟩ | ⟨r0, hv⟩ | ⟨r0, hv⟩
+  · rw [hv, List.singleton_append, lead_other (Or.inl (sk_ident hid))]
+    simp [leadByClass, cl_ident hid, hX]
+  · rw [hv, List.cons_append, lead_other (Or.inl sk_reg)]; simp [leadByClass]
+  · rw [hv, List.cons_append, lead_other (Or.inl sk_dollar)]; simp [leadByClass]
+  · rw [hv, List.cons_append, lead_other (Or.inl sk_percent)]; simp [leadByClass]
+
+theorem sk_insWord (ds : List Char) : sk (.word (insPrefix ++ ds)) = .other := by
+  apply wordSK_other
+  simp [stmtKeywords, insPrefix]
+
+theorem lead_func (u : UnOp) (hp : u.isPrefix = false) (r : List Tok) : lead (u.tok :: tLp :: r) = .generic := by
+  have hsk : sk u.tok = .other ∨ sk u.tok = .ty .int ∨ sk u.tok = .ty .float := by
+    cases u <;> first | (exact absurd hp (by decide)) | decide
+  rcases hsk with h | h | h
+  · rw [lead_other (Or.inl h)]
+    rcases cl_unop_func u hp with hc | ⟨_, hc⟩ | ⟨_, hc⟩ <;> simp [leadByClass, hc]
+  · simp [lead, h]
+  · simp [lead, h]
+
+/-- an expression statement is read by the rules for statements that begin with an expression -/
+theorem lead_expr (e : Expr) (h : NoGlue e = true) (rest : List Tok) :
+    lead (printE false e ++ tSemi :: rest) = .generic := by
+  cases e with
+  | ternary c l r => simp [printE, wrap, lead_lp]
+  | binop a op b => simp [printE, wrap, lead_lp]
+  | unop op x =>
+    by_cases hp : op.isPrefix = true
+    · simp [printE, hp, wrap, lead_lp]
+    · have hp' : op.isPrefix = false := by simpa using hp
+      simp [printE, hp', lead_func op hp']
+  | xcrement pre inc v =>
+    have hok : varOK v = true := by simpa [NoGlue] using h
+    cases pre with
+    | true =>
+      simp only [printE, if_true, List.cons_append]
+      rw [lead_other (Or.inl (sk_xcr inc))]
+      cases inc <;> simp [leadByClass]
+    | false =>
+      simp only [printE, Bool.false_eq_true, if_false, List.append_assoc]
+      exact lead_varToks v hok _ (by cases inc <;> simp)
+  | var v =>
+    have hok : varOK v = true := by simpa [NoGlue] using h
+    simp only [printE]
+    exact lead_varToks v hok _ (by simp)
+  | call name ps as =>
+    simp only [NoGlue, Bool.and_eq_true] at h
+    cases name with
+    | normal id =>
+      have hid : identOK id = true := by simpa [CallName.ok] using h.1.1
+      simp only [printE, CallName.tok, List.cons_append]
+      rw [lead_other (Or.inl (sk_ident hid))]
+      simp [leadByClass, cl_ident hid]
+    | ins n =>
+      simp only [printE, CallName.tok, List.cons_append]
+      rw [lead_other (Or.inl (sk_insWord _))]
+      simp [leadByClass, cl_ins]
+  | diffSwitch cs =>
+    cases cs with
+    | some e cs' => simp [printE, wrap, lead_lp]
+    | nil => simp [NoGlue] at h
+    | blank _ => simp [NoGlue] at h
+  | litInt v f =>
+    simp only [printE]
+    rcases printInt_shape f v with ⟨ht, _⟩ | ⟨ht, _⟩ | ⟨hneg, _⟩ | ⟨hp, _⟩
+    · rw [ht]
+      have : numToks falseText = [.word falseText] := by decide
+      rw [this, List.singleton_append, lead_other (Or.inl (by decide))]
+      simp [leadByClass]
+    · rw [ht]
+      have : numToks trueText = [.word trueText] := by decide
+      rw [this, List.singleton_append, lead_other (Or.inl (by decide))]
+      simp [leadByClass]
+    · obtain ⟨r, hr, _⟩ := numToks_neg hneg
+      rw [hr]
+      simp only [List.cons_append, List.nil_append]
+      rw [lead_other (Or.inl sk_minus)]
+      simp [leadByClass]
+    · rw [numToks_plain hp, List.singleton_append, lead_other (Or.inl (sk_int _))]
+      simp [leadByClass]
+  | litFloat neg b =>
+    simp only [printE]
+    cases b <;> cases neg <;> simp only [floatToks, Bool.false_eq_true, if_false, if_true, List.nil_append, List.cons_append]
+    all_goals first
+      | (rw [lead_other (Or.inl (sk_float _))]; simp [leadByClass]; done)
+      | (rw [lead_other (Or.inl sk_minus)]; simp [leadByClass]; done)
+      | (rw [lead_other (Or.inl (by decide))]; simp [leadByClass]; done)
+  | litString s =>
+    simp only [printE, List.singleton_append]
+    rw [lead_other (Or.inl (sk_str _))]; simp [leadByClass]
+  | labelProp kw l =>
+    simp only [printE, List.cons_append]
+    rw [lead_other (Or.inl (sk_labelKw kw))]; simp [leadByClass]
+  | enumConst en id =>
+    simp only [NoGlue, Bool.and_eq_true] at h
+    simp only [printE, List.cons_append]
+    rw [lead_other (Or.inl (sk_ident h.1))]
+    simp [leadByClass, cl_ident h.1]
+
+theorem varToks_not_str (v : Var) (X : List Tok) (s : List Char) (r : List Tok) : varToks v ++ X ≠ .str s :: r := by
+  obtain ⟨sg, nm⟩ := v
+  cases sg with
+  | none => cases nm <;> simp [varToks, sigilToks, nameToks, tReg]
+  | some x => cases x <;> simp [varToks, sigilToks, tDollar, tPercent]
+
+/-- only a string literal begins with a string token, and it is that token alone -/
+theorem printE_str_head (e : Expr) :
+    (∀ s r, printE false e ≠ .str s :: r) ∨ ∃ s, printE false e = [.str s] := by
+  cases e with
+  | litString s => exact Or.inr ⟨_, rfl⟩
+  | ternary c l r => left; intro s r; simp [printE, wrap, tLp]
+  | binop a op b => left; intro s r; simp [printE, wrap, tLp]
+  | unop op x =>
+    left; intro s r
+    simp only [printE]
+    split
+    · simp [wrap, tLp]
+    · cases op <;> simp [UnOp.tok, tMinus, tDollar, tPercent]
+  | xcrement pre inc v =>
+    left; intro s r
+    cases pre
+    · simpa [printE] using varToks_not_str v _ s r
+    · cases inc <;> simp [printE, xcrTok, tInc, tDec]
+  | var v =>
+    left; intro s r
+    simpa [printE] using varToks_not_str v [] s r
+  | call name ps as => left; intro s r; cases name <;> simp [printE, CallName.tok]
+  | diffSwitch cs => left; intro s r; simp [printE, wrap, tLp]
+  | litInt v f =>
+    left; intro s r
+    simp only [printE, numToks]
+    split
+    · simp [tMinus]
+    · split <;> simp
+  | litFloat neg b => left; intro s r; cases b <;> cases neg <;> simp [printE, floatToks, tMinus]
+  | labelProp kw l => left; intro s r; simp [printE]
+  | enumConst en id => left; intro s r; simp [printE]
+
+/-! ## the first token of a statement -/
+
+theorem diffLabelAt_absent_of_sk {t0 : Tok} {r : List Tok} (h : sk t0 ≠ .lbrace) : diffLabelAt (t0 :: r) = .absent := by
+  unfold diffLabelAt
+  split
+  · rename_i a s b c heq
+    simp only [List.cons.injEq] at heq
+    obtain ⟨rfl, _⟩ := heq
+    simp [h]
+  · rfl
+
+theorem diffLabelAt_second (t0 t1 : Tok) (r : List Tok) (h : ∀ s, t1 ≠ .str s) : diffLabelAt (t0 :: t1 :: r) = .absent := by
+  unfold diffLabelAt
+  split
+  · rename_i a s b c heq
+    simp only [List.cons.injEq] at heq
+    exact absurd heq.2.1 (h s)
+  · rfl
+
+theorem diffLabelAt_third (t0 : Tok) (s : List Char) (t2 : Tok) (r : List Tok) (h : sk t2 ≠ .rbrace) :
+    diffLabelAt (t0 :: .str s :: t2 :: r) = .absent := by
+  simp [diffLabelAt, h]
+
+theorem diffLabelAt_two (t0 t1 : Tok) : diffLabelAt [t0, t1] = .absent := by
+  unfold diffLabelAt
+  split
+  · rename_i a s b c heq
+    simp at heq
+  · rfl
+
+/-- what the block loop and the difficulty-label rule need to know about the first tokens of a
+statement: it does not start with `}` or `else`; only a block starts with `{`; and a leading
+string token is followed by `;` -/
+structure HeadOK (toks : List Tok) (isBlock : Prop) : Prop where
+  ne : ∃ t0 r0, toks = t0 :: r0 ∧ sk t0 ≠ .rbrace ∧ sk t0 ≠ .kElse ∧ (sk t0 = .lbrace → isBlock) ∧
+    ((∀ s, t0 ≠ .str s) ∨ r0 = [tSemi])
+
+theorem headOK_of {t0 : Tok} {r0 : List Tok} {P : Prop} (h1 : sk t0 ≠ .rbrace) (h2 : sk t0 ≠ .kElse) (h3 : sk t0 ≠ .lbrace)
+    (h4 : ∀ s, t0 ≠ .str s) : HeadOK (t0 :: r0) P :=
+  ⟨t0, r0, rfl, h1, h2, fun h => absurd h h3, Or.inl h4⟩
+
+theorem numToks_printI32_head (t : Int32) (X : List Tok) :
+    ∃ t0 r0, numToks (printI32 t) ++ X = t0 :: r0 ∧ sk t0 = .other ∧ ∀ s, t0 ≠ .str s := by
+  rcases shape_printI32 t with ⟨_, hn⟩ | ⟨_, hp⟩
+  · obtain ⟨r, hr, _⟩ := numToks_neg hn
+    exact ⟨tMinus, _, by rw [hr]; rfl, sk_minus, by simp [tMinus]⟩
+  · exact ⟨.int _, _, by rw [numToks_plain hp]; rfl, rfl, by simp⟩
+
+theorem varToks_head_sk (v : Var) (hok : varOK v = true) (X : List Tok) :
+    ∃ t0 r0, varToks v ++ X = t0 :: r0 ∧ sk t0 = .other ∧ ∀ s, t0 ≠ .str s := by
+  rcases varToks_cases v hok with ⟨id, hv, hid⟩ | ⟨r0, hv⟩ | ⟨r0, hv⟩ | ⟨r0, hv⟩
+  · exact ⟨_, _, by rw [hv]; rfl, sk_ident hid, by simp⟩
+  · exact ⟨_, _, by rw [hv]; rfl, sk_reg, by simp [tReg]⟩
+  · exact ⟨_, _, by rw [hv]; rfl, sk_dollar, by simp [tDollar]⟩
+  · exact ⟨_, _, by rw [hv]; rfl, sk_percent, by simp [tPercent]⟩
+
+theorem kind_head (k : Kind) (h : OKK k = true) : HeadOK (printKind k) (∃ b, k = .block b) := by
+  cases k with
+  | jump j =>
+    obtain ⟨t0, r0, hj, hs⟩ := jumpToks_head j
+    simp only [printKind, hj, List.cons_append]
+    rcases hs with hs | hs <;> exact headOK_of (by simp [hs]) (by simp [hs]) (by simp [hs]) (by
+      intro s hs'; subst hs'; simp at hs)
+  | ret v =>
+    cases v <;> (simp only [printKind]; exact headOK_of (by simp) (by simp) (by simp) (by simp [tReturn]))
+  | condJump kw c j =>
+    simp only [printKind]
+    cases kw <;> exact headOK_of (by simp) (by simp) (by simp) (by simp [CondKw.tok])
+  | condChain kw c b rest =>
+    simp only [printKind]
+    cases kw <;> exact headOK_of (by simp) (by simp) (by simp) (by simp [CondKw.tok])
+  | loop b => simp only [printKind]; exact headOK_of (by simp) (by simp) (by simp) (by simp [tLoop])
+  | while_ c b => simp only [printKind]; exact headOK_of (by simp) (by simp) (by simp) (by simp [tWhile])
+  | doWhile b c => simp only [printKind]; exact headOK_of (by simp) (by simp) (by simp) (by simp [tDo])
+  | times clb n b => simp only [printKind]; exact headOK_of (by simp) (by simp) (by simp) (by simp [tTimes])
+  | expr e =>
+    have he : NoGlue e = true := by simpa [OKK] using h
+    obtain ⟨t0, r0, hp, hs⟩ := printE_head e he
+    obtain ⟨h1, h2, h3⟩ := startsExpr_sk hs
+    simp only [printKind, hp, List.cons_append]
+    refine ⟨t0, _, rfl, h2, h3, fun hl => absurd hl h1, ?_⟩
+    rcases printE_str_head e with hn | ⟨s, hs1⟩
+    · left; intro s hs'; subst hs'; exact hn s r0 hp
+    · right
+      rw [hs1] at hp
+      simp only [List.cons.injEq] at hp
+      rw [← hp.2]; rfl
+  | block b =>
+    simp only [printKind, braces]
+    exact ⟨tLbrace, _, rfl, by simp, by simp, fun _ => ⟨b, rfl⟩, Or.inl (by simp [tLbrace])⟩
+  | assign v op e =>
+    have hv : varOK v = true := by simp only [OKK, Bool.and_eq_true] at h; exact h.1
+    obtain ⟨t0, r0, hp, hs, hstr⟩ := varToks_head_sk v hv (op.tok :: (printE true e ++ [tSemi]))
+    simp only [printKind, hp]
+    exact headOK_of (by simp [hs]) (by simp [hs]) (by simp [hs]) hstr
+  | decl ty vars => simp only [printKind]; exact headOK_of (by simp) (by simp) (by simp) (by simp [TypeKw.tok])
+  | callSub atSym as f args =>
+    have hf : identOK f = true := by simp only [OKK, Bool.and_eq_true] at h; exact h.1.1.1
+    cases atSym
+    · simp only [printKind, Bool.false_eq_true, if_false, List.nil_append]
+      exact headOK_of (by simp [sk_ident hf]) (by simp [sk_ident hf]) (by simp [sk_ident hf]) (by simp)
+    · simp only [printKind, if_true, List.cons_append, List.nil_append]
+      exact headOK_of (by simp) (by simp) (by simp) (by simp [tAt])
+  | label n =>
+    have hn : identOK n = true := by simpa [OKK] using h
+    simp only [printKind]
+    exact headOK_of (by simp [sk_ident hn]) (by simp [sk_ident hn]) (by simp [sk_ident hn]) (by simp)
+  | interrupt e => simp only [printKind]; exact headOK_of (by simp) (by simp) (by simp) (by simp [tInterrupt])
+  | absTime t =>
+    obtain ⟨t0, r0, hp, hs, hstr⟩ := numToks_printI32_head t [tColon]
+    simp only [printKind, hp]
+    exact headOK_of (by simp [hs]) (by simp [hs]) (by simp [hs]) hstr
+  | relTime d => simp only [printKind]; exact headOK_of (by simp) (by simp) (by simp) (by simp [tPlus])
+
+/-- the first token of `diffToks d ++ printKind k ++ X` is neither `}` nor `else` -/
+theorem stmt_head_sk (d : Option (List Char)) (k : Kind) (h : OKK k = true) (X : List Tok) :
+    hs (diffToks d ++ (printKind k ++ X)) ≠ some .rbrace ∧ hs (diffToks d ++ (printKind k ++ X)) ≠ some .kElse := by
+  cases d with
+  | some s => simp [diffToks]
+  | none =>
+    obtain ⟨t0, r0, hp, h1, h2, _, _⟩ := (kind_head k h).ne
+    simp [diffToks, hp, h1, h2]
+
+theorem items_head_sk (b : Block) (h : OKB b = true) (X : List Tok) :
+    hs (printStmts b ++ tRbrace :: X) ≠ some .kElse := by
+  cases b with
+  | nil => simp [printStmts]
+  | cons d k rest =>
+    simp only [OKB, Bool.and_eq_true] at h
+    simp only [printStmts, List.append_assoc]
+    exact (stmt_head_sk d k h.1.2 _).2
+
+/-- a statement without difficulty label is not mistaken for one with a label -/
+theorem diffLabelAt_kind (k : Kind) (h : OKK k = true) (X : List Tok) : diffLabelAt (printKind k ++ X) = .absent := by
+  obtain ⟨t0, r0, hp, _, _, hb, _⟩ := (kind_head k h).ne
+  by_cases hl : sk t0 = .lbrace
+  · obtain ⟨b, rfl⟩ := hb hl
+    simp only [printKind, braces, List.cons_append]
+    cases b with
+    | nil => exact diffLabelAt_second _ _ _ (by simp [tRbrace])
+    | cons d k' rest =>
+      simp only [OKK, OKB, Bool.and_eq_true] at h
+      cases d with
+      | some s => simp only [printStmts, diffToks, List.cons_append]; exact diffLabelAt_second _ _ _ (by simp [tLbrace])
+      | none =>
+        obtain ⟨t1, r1, hp1, _, _, _, hstr⟩ := (kind_head k' h.1.2).ne
+        simp only [printStmts, diffToks, List.nil_append, hp1, List.cons_append, List.append_assoc]
+        rcases hstr with hn | rfl
+        · exact diffLabelAt_second _ _ _ hn
+        · cases t1 with
+          | str s => exact diffLabelAt_third _ _ _ _ (by simp)
+          | _ => exact diffLabelAt_second _ _ _ (by simp)
+  · rw [hp, List.cons_append]
+    exact diffLabelAt_absent_of_sk hl
+
+/-! ## declarations, explicit sub calls, statements that begin with an expression -/
+
+theorem declVarOK_eq {v : Var} (h : declVarOK v = true) : ∃ w, v = { sigil := none, name := .normal w } ∧ identOK w = true := by
+  obtain ⟨sg, nm⟩ := v
+  cases sg <;> cases nm <;> simp_all [declVarOK]
+
+theorem pDeclItems_print : ∀ (vars : List (Var × Option Expr)), vars ≠ [] → declOK vars = true → ∀ f rest, needD vars ≤ f →
+    pDeclItems f (declToks vars ++ tSemi :: rest) = some (normDecl vars, tSemi :: rest)
+  | [], hne, _, _, _, _ => absurd rfl hne
+  | (v, none) :: vs, _, h, f, rest, hf => by
+    simp only [declOK, Bool.and_eq_true] at h
+    obtain ⟨w, rfl, hw⟩ := declVarOK_eq h.1
+    simp only [needD] at hf
+    obtain ⟨f', rfl⟩ : ∃ f', f = f' + 1 := ⟨f - 1, by omega⟩
+    cases vs with
+    | nil => simp [declToks, varToks, sigilToks, nameToks, pDeclItems, cl_ident hw, normDecl]
+    | cons x xs =>
+      have ih := pDeclItems_print (x :: xs) (by simp) h.2 f' rest (by omega)
+      simp [declToks, varToks, sigilToks, nameToks, pDeclItems, cl_ident hw, normDecl, ih]
+  | (v, some e) :: vs, _, h, f, rest, hf => by
+    simp only [declOK, Bool.and_eq_true] at h
+    obtain ⟨w, rfl, hw⟩ := declVarOK_eq h.1.1
+    simp only [needD] at hf
+    obtain ⟨f', rfl⟩ : ∃ f', f = f' + 1 := ⟨f - 1, by omega⟩
+    cases vs with
+    | nil =>
+      have he := exprAt_print e h.1.2 false f' (by omega) (tSemi :: rest) (by simp [closes])
+      simp [declToks, varToks, sigilToks, nameToks, pDeclItems, cl_ident hw, normDecl, he]
+    | cons x xs =>
+      have ih := pDeclItems_print (x :: xs) (by simp) h.2 f' rest (by omega)
+      have he := exprAt_print e h.1.2 false f' (by omega) (tComma :: (declToks (x :: xs) ++ tSemi :: rest)) (by simp [closes])
+      simp [declToks, varToks, sigilToks, nameToks, pDeclItems, cl_ident hw, normDecl, he, ih]
+
+theorem declToks_head (vars : List (Var × Option Expr)) (hne : vars ≠ []) (h : declOK vars = true) (X : List Tok) :
+    ∃ w r0, declToks vars ++ X = .word w :: r0 ∧ identOK w = true := by
+  cases vars with
+  | nil => exact absurd rfl hne
+  | cons x xs =>
+    obtain ⟨v, oe⟩ := x
+    cases oe with
+    | none =>
+      simp only [declOK, Bool.and_eq_true] at h
+      obtain ⟨w, rfl, hw⟩ := declVarOK_eq h.1
+      simp only [declToks, varToks, sigilToks, nameToks, List.nil_append, List.cons_append]
+      exact ⟨w, _, rfl, hw⟩
+    | some e =>
+      simp only [declOK, Bool.and_eq_true] at h
+      obtain ⟨w, rfl, hw⟩ := declVarOK_eq h.1.1
+      simp only [declToks, varToks, sigilToks, nameToks, List.nil_append, List.cons_append]
+      exact ⟨w, _, rfl, hw⟩
+
+theorem pDecl_print (ty : TypeKw) (vars : List (Var × Option Expr)) (hty : (ty == .int || ty == .float || ty == .var) = true)
+    (h : declOK vars = true) (f : Nat) (hf : needD vars ≤ f) (rest : List Tok) :
+    pDecl f ty (declToks vars ++ tSemi :: rest) = some (.decl ty (normDecl vars), rest) := by
+  have h1 : ¬ (ty = .string ∨ ty = .void) := by cases ty <;> simp_all
+  by_cases hne : vars = []
+  · subst hne
+    simp [pDecl, h1, declToks, normDecl]
+  · obtain ⟨w, r0, hw, hid⟩ := declToks_head vars hne h (tSemi :: rest)
+    have hnot : hd (declToks vars ++ tSemi :: rest) ≠ some .semi := by rw [hw]; simp [cl_ident hid]
+    simp [pDecl, h1, hnot, pDeclItems_print vars hne h f rest hf]
+
+theorem pAsyncTail_print (as : Async) (h : asyncOK as = true) (f : Nat) (hf : needAsync as ≤ f) (rest : List Tok) :
+    pAsyncTail f (asyncToks as ++ tSemi :: rest) = some (normAsync as, rest) := by
+  cases as with
+  | none => simp [asyncToks, pAsyncTail, normAsync]
+  | plain => simp [asyncToks, pAsyncTail, normAsync]
+  | id e =>
+    have he : NoGlue e = true := by simpa [asyncOK] using h
+    obtain ⟨t0, r0, hp, hs⟩ := printE_head e he
+    have hne := (startsExpr_ne_semi hs).1
+    have hx := exprNCAt_print e he f (by simpa [needAsync] using hf) (tSemi :: rest) (by simp [stopsTerm]) (by simp [binOpOf])
+    have hh : hd (printE false e ++ tSemi :: rest) ≠ some .semi := by rw [hp]; simpa using hne
+    simp [asyncToks, pAsyncTail, normAsync, hh, hx]
+
+theorem aop_stops (op : AssignOp) : stopsTerm (some (classify op.tok)) = true ∧ binOpOf (some (classify op.tok)) = none := by
+  cases op <;> decide
+
+theorem varToks_hd_ne_lp (v : Var) (hok : varOK v = true) (X : List Tok) : hd (varToks v ++ X) ≠ some .lp := by
+  rcases varToks_cases v hok with ⟨id, hv, hid⟩ | ⟨r0, hv⟩ | ⟨r0, hv⟩ | ⟨r0, hv⟩ <;> rw [hv] <;> simp [cl_ident, *]
+
+theorem pGeneric_expr (e : Expr) (h : NoGlue e = true) (f : Nat) (hf : cost e + 11 ≤ f) (rest : List Tok) :
+    pGeneric f (printE false e ++ tSemi :: rest) = some (.expr (norm e), rest) := by
+  have hx := exprNCAt_print e h f hf (tSemi :: rest) (by simp [stopsTerm]) (by simp [binOpOf])
+  simp [pGeneric, hx]
+
+theorem pGeneric_assign (v : Var) (op : AssignOp) (e : Expr) (hv : varOK v = true) (h : NoGlue e = true) (f : Nat)
+    (hf : cost e + 12 ≤ f) (rest : List Tok) :
+    pGeneric f (varToks v ++ op.tok :: (printE true e ++ tSemi :: rest)) = some (.assign v op (norm e), rest) := by
+  have hc := cost_pos e
+  have hx := exprNCAt_print (.var v) (by simpa [NoGlue] using hv) f (by simp [cost]; omega)
+    (op.tok :: (printE true e ++ tSemi :: rest)) (by simpa using (aop_stops op).1) (by simpa using (aop_stops op).2)
+  have he := exprAt_print e h true f hf (tSemi :: rest) (by simp [closes])
+  have hlp := varToks_hd_ne_lp v hv (op.tok :: (printE true e ++ tSemi :: rest))
+  simp only [printE, norm] at hx
+  simp [pGeneric, hx, cl_aop_ne_semi op, varOfExpr, hlp, he]
+
+theorem pGeneric_callSub (as : Async) (fn : List Char) (args : Exprs) (hf' : identOK fn = true) (ha : NoGlueAs args = true)
+    (has : asyncOK as = true) (hne : as ≠ .none) (f : Nat) (hf : max (costAs args + 16) (needAsync as) ≤ f) (rest : List Tok) :
+    pGeneric f (.word fn :: tLp :: (printArgs args ++ tRp :: (asyncToks as ++ tSemi :: rest))) =
+      some (.callSub true (normAsync as) fn (normAs args), rest) := by
+  have hng : NoGlue (.call (.normal fn) .nil args) = true := by simp [NoGlue, CallName.ok, hf', NoGluePs, ha]
+  obtain ⟨X, hX⟩ : ∃ X, asyncToks as ++ tSemi :: rest = tAsync :: X := by
+    cases as with
+    | none => exact absurd rfl hne
+    | plain => exact ⟨_, rfl⟩
+    | id e => exact ⟨_, rfl⟩
+  have hx := exprNCAt_print (.call (.normal fn) .nil args) hng f (by simp [cost, costPs]; omega) (tAsync :: X)
+    (by simp [stopsTerm]) (by simp [binOpOf])
+  have hform : (Tok.word fn :: tLp :: (printArgs args ++ tRp :: (asyncToks as ++ tSemi :: rest))) =
+      printE false (.call (.normal fn) .nil args) ++ tAsync :: X := by
+    simp [printE, CallName.tok, FmtExpr.printItems, hX]
+  have ht := pAsyncTail_print as has f (by omega) rest
+  rw [hX] at ht
+  rw [hform]
+  simp only [pGeneric, hx, norm, normPs]
+  simp [printE, CallName.tok, cl_ident hf', Pseudos.isNil, ht]
+
+theorem pAtCall_print (as : Async) (fn : List Char) (args : Exprs) (hf' : identOK fn = true) (ha : NoGlueAs args = true)
+    (has : asyncOK as = true) (f : Nat) (hf : max (costAs args + 16) (needAsync as) ≤ f) (rest : List Tok) :
+    pAtCall f (.word fn :: tLp :: (printArgs args ++ tRp :: (asyncToks as ++ tSemi :: rest))) =
+      some (.callSub true (normAsync as) fn (normAs args), rest) := by
+  have hi := itemsAt_print args ha f (by omega) (asyncToks as ++ tSemi :: rest)
+  have ht := pAsyncTail_print as has f (by omega) rest
+  simp [pAtCall, cl_ident hf', hi, Pseudos.isNil, ht]
+
+/-! ## the induction over statements, blocks and chains -/
+
+theorem lead_cond (kw : CondKw) (r : List Tok) : lead (kw.tok :: r) = .cond kw := by
+  cases kw <;> exact lead_of_sk_kw (by simp)
+
+theorem normK_isPhysical (k : Kind) : (normK k).isPhysical = k.isPhysical := by
+  cases k <;> try rfl
+  all_goals (rename_i v; cases v <;> rfl)
+
+theorem exprAt_var (v : Var) (hok : varOK v = true) (f : Nat) (hf : 16 ≤ f) (rest : List Tok)
+    (hr : hd rest = some .assign) : exprAt f (varToks v ++ rest) = some (.var v, rest) := by
+  obtain ⟨f', rfl⟩ : ∃ f', f = f' + 1 := ⟨f - 1, by omega⟩
+  have hl := (good_var v hok).level 0 (by omega) f' (rest.map classify) (by simp [cost]; omega)
+    (by rw [hd_eq, hr]; rfl) (fun op hop => by rw [hd_eq, hr] at hop; cases hop)
+  have := pExpr_of_level hl (by rw [hd_eq, hr]; simp) (by rw [hd_eq, hr]; simp)
+  simp only [printE, norm] at this
+  unfold exprAt
+  rw [List.map_append, this]
+  simp only
+  rw [drop_map_len]
+
+theorem parse_escape (s : List Char) : parseStringLiteral (escapeString s) = .ok s := by
+  have := string_escape_roundtrip s
+  unfold unescapeString at this
+  simpa using this
+
+mutual
+theorem pKind_print : ∀ (k : Kind), OKK k = true → ∀ (f : Nat) (rest : List Tok), needK k ≤ f → hs rest ≠ some .kElse →
+    pKind f (printKind k ++ rest) = some (normK k, rest)
+  | .jump j, h, f, rest, hf, _ => by
+    simp only [needK] at hf
+    obtain ⟨f', rfl⟩ : ∃ f', f = f' + 1 := ⟨f - 1, by omega⟩
+    have hj : jumpOK j = true := by simpa [OKK] using h
+    obtain ⟨t0, r0, hjt, hsk⟩ := jumpToks_head j
+    have hl : lead (printKind (.jump j) ++ rest) = .jump := by
+      simp only [printKind, hjt, List.cons_append]
+      exact lead_of_sk_kw (by rcases hsk with h | h <;> simp [h])
+    have hp := pJump_print j hj rest
+    simp only [pKind, hl]
+    simp [printKind, hp, normK]
+  | .ret none, _, f, rest, hf, _ => by
+    simp only [needK] at hf
+    obtain ⟨f', rfl⟩ : ∃ f', f = f' + 1 := ⟨f - 1, by omega⟩
+    have hl : lead (printKind (.ret none) ++ rest) = .ret := lead_of_sk_kw (by simp)
+    simp only [pKind, hl]
+    simp [printKind, normK]
+  | .ret (some e), h, f, rest, hf, _ => by
+    simp only [needK] at hf
+    obtain ⟨f', rfl⟩ : ∃ f', f = f' + 1 := ⟨f - 1, by omega⟩
+    have he : NoGlue e = true := by simpa [OKK] using h
+    have hl : lead (printKind (.ret (some e)) ++ rest) = .ret := lead_of_sk_kw (by simp)
+    obtain ⟨t0, r0, hp, hs⟩ := printE_head e he
+    have hne : hd (printE false e ++ tSemi :: rest) ≠ some .semi := by rw [hp]; simpa using (startsExpr_ne_semi hs).1
+    have hx := exprAt_print e he false f' (by omega) (tSemi :: rest) (by simp [closes])
+    simp only [pKind, hl]
+    simp [printKind, hne, hx, normK]
+  | .condJump kw c j, h, f, rest, hf, _ => by
+    simp only [OKK, Bool.and_eq_true] at h
+    simp only [needK] at hf
+    obtain ⟨f', rfl⟩ : ∃ f', f = f' + 1 := ⟨f - 1, by omega⟩
+    have hl : lead (printKind (.condJump kw c j) ++ rest) = .cond kw := lead_cond kw _
+    have hp := pParenExpr_print c h.1 f' (by omega) (jumpToks j ++ tSemi :: rest)
+    obtain ⟨t0, r0, hjt, hsk⟩ := jumpToks_head j
+    have hnb : hs (jumpToks j ++ tSemi :: rest) ≠ some .lbrace := by
+      rw [hjt]; rcases hsk with h | h <;> simp [h]
+    have hj := pJump_print j h.2 rest
+    simp only [pKind, hl]
+    simp [printKind, hp, hnb, hj, normK]
+  | .condChain kw c b ch, h, f, rest, hf, hne => by
+    simp only [OKK, Bool.and_eq_true] at h
+    simp only [needK] at hf
+    obtain ⟨f', rfl⟩ : ∃ f', f = f' + 1 := ⟨f - 1, by omega⟩
+    have hl : lead (printKind (.condChain kw c b ch) ++ rest) = .cond kw := lead_cond kw _
+    have hp := pParenExpr_print c h.1.1 f' (by omega) (tLbrace :: (printStmts b ++ tRbrace :: (printChain ch ++ rest)))
+    have ihb := pItemsB_print b h.1.2 f' (printChain ch ++ rest) (by omega)
+    have ihc := pChain_print ch h.2 f' rest (by omega) hne
+    simp only [pKind, hl]
+    simp [printKind, braces, hp, ihb, ihc, normK]
+  | .loop b, h, f, rest, hf, _ => by
+    simp only [needK] at hf
+    obtain ⟨f', rfl⟩ : ∃ f', f = f' + 1 := ⟨f - 1, by omega⟩
+    have hb : OKB b = true := by simpa [OKK] using h
+    have hl : lead (printKind (.loop b) ++ rest) = .loop := lead_of_sk_kw (by simp)
+    have ihb := pItemsB_print b hb f' rest (by omega)
+    simp only [pKind, hl]
+    simp [printKind, braces, ihb, normK]
+  | .while_ c b, h, f, rest, hf, _ => by
+    simp only [OKK, Bool.and_eq_true] at h
+    simp only [needK] at hf
+    obtain ⟨f', rfl⟩ : ∃ f', f = f' + 1 := ⟨f - 1, by omega⟩
+    have hl : lead (printKind (.while_ c b) ++ rest) = .whileW := lead_of_sk_kw (by simp)
+    have hp := pParenExpr_print c h.1 f' (by omega) (tLbrace :: (printStmts b ++ tRbrace :: rest))
+    have ihb := pItemsB_print b h.2 f' rest (by omega)
+    simp only [pKind, hl]
+    simp [printKind, braces, hp, ihb, normK]
+  | .doWhile b c, h, f, rest, hf, _ => by
+    simp only [OKK, Bool.and_eq_true] at h
+    simp only [needK] at hf
+    obtain ⟨f', rfl⟩ : ∃ f', f = f' + 1 := ⟨f - 1, by omega⟩
+    have hl : lead (printKind (.doWhile b c) ++ rest) = .doW := lead_of_sk_kw (by simp)
+    have hp := pParenExpr_print c h.2 f' (by omega) (tSemi :: rest)
+    have ihb := pItemsB_print b h.1 f' (tWhile :: tLp :: (printE true c ++ tRp :: tSemi :: rest)) (by omega)
+    simp only [pKind, hl]
+    simp [printKind, braces, hp, ihb, normK]
+  | .times clb n b, h, f, rest, hf, _ => by
+    simp only [OKK, Bool.and_eq_true] at h
+    simp only [needK] at hf
+    obtain ⟨f', rfl⟩ : ∃ f', f = f' + 1 := ⟨f - 1, by omega⟩
+    have hl : lead (printKind (.times clb n b) ++ rest) = .times := lead_of_sk_kw (by simp)
+    have hc := cost_pos n
+    have hx := exprAt_print n h.1.2 true f' (by omega) (tRp :: tLbrace :: (printStmts b ++ tRbrace :: rest)) (by simp [closes])
+    have ihb := pItemsB_print b h.2 f' rest (by omega)
+    cases clb with
+    | none =>
+      simp only [pKind, hl]
+      simp [printKind, braces, clobberToks, hx, ihb, normK]
+    | some v =>
+      have hv : varOK v = true := by simpa using h.1.1
+      have hxv := exprAt_var v hv f' (by omega) (tAssign :: (printE true n ++ tRp :: tLbrace :: (printStmts b ++ tRbrace :: rest))) (by simp)
+      have hlp := varToks_hd_ne_lp v hv (tAssign :: (printE true n ++ tRp :: tLbrace :: (printStmts b ++ tRbrace :: rest)))
+      simp only [pKind, hl]
+      simp [printKind, braces, clobberToks, hxv, varOfExpr, hlp, hx, ihb, normK]
+  | .expr e, h, f, rest, hf, _ => by
+    simp only [needK] at hf
+    obtain ⟨f', rfl⟩ : ∃ f', f = f' + 1 := ⟨f - 1, by omega⟩
+    have he : NoGlue e = true := by simpa [OKK] using h
+    have hl : lead (printKind (.expr e) ++ rest) = .generic := by
+      simp only [printKind, List.append_assoc, List.singleton_append]; exact lead_expr e he rest
+    have hg := pGeneric_expr e he f' (by omega) rest
+    simp only [pKind, hl]
+    simpa [printKind, normK] using hg
+  | .block b, h, f, rest, hf, _ => by
+    simp only [needK] at hf
+    obtain ⟨f', rfl⟩ : ∃ f', f = f' + 1 := ⟨f - 1, by omega⟩
+    have hb : OKB b = true := by simpa [OKK] using h
+    have hl : lead (printKind (.block b) ++ rest) = .lbrace := lead_of_sk_kw (by simp)
+    have ihb := pItemsB_print b hb f' rest (by omega)
+    simp only [pKind, hl]
+    simp [printKind, braces, ihb, normK]
+  | .assign v op e, h, f, rest, hf, _ => by
+    simp only [OKK, Bool.and_eq_true] at h
+    simp only [needK] at hf
+    obtain ⟨f', rfl⟩ : ∃ f', f = f' + 1 := ⟨f - 1, by omega⟩
+    have hl : lead (printKind (.assign v op e) ++ rest) = .generic := by
+      simp only [printKind, List.append_assoc]
+      exact lead_varToks v h.1 _ (by simpa using cl_aop_ne_colon op)
+    have hg := pGeneric_assign v op e h.1 h.2 f' (by omega) rest
+    simp only [pKind, hl]
+    simpa [printKind, normK] using hg
+  | .decl ty vars, h, f, rest, hf, _ => by
+    simp only [OKK, Bool.and_eq_true] at h
+    simp only [needK] at hf
+    obtain ⟨f', rfl⟩ : ∃ f', f = f' + 1 := ⟨f - 1, by omega⟩
+    have hnlp : hd (declToks vars ++ tSemi :: rest) ≠ some .lp := by
+      by_cases hne : vars = []
+      · subst hne; simp [declToks]
+      · obtain ⟨w, r0, hw, hid⟩ := declToks_head vars hne h.2 (tSemi :: rest)
+        rw [hw]; simp [cl_ident hid]
+    have hl : lead (printKind (.decl ty vars) ++ rest) = .decl ty := by
+      simp [printKind, lead, hnlp]
+    have hd' := pDecl_print ty vars h.1 h.2 f' (by omega) rest
+    simp only [pKind, hl]
+    simpa [printKind, normK] using hd'
+  | .callSub atSym as fn args, h, f, rest, hf, _ => by
+    simp only [OKK, Bool.and_eq_true] at h
+    simp only [needK] at hf
+    obtain ⟨f', rfl⟩ : ∃ f', f = f' + 1 := ⟨f - 1, by omega⟩
+    cases atSym with
+    | true =>
+      have hl : lead (printKind (.callSub true as fn args) ++ rest) = .atCall := by
+        simp only [printKind, if_true, List.cons_append, List.nil_append]
+        rw [lead_other (Or.inl sk_at)]; simp [leadByClass]
+      have hg := pAtCall_print as fn args h.1.1.1 h.1.1.2 h.1.2 f' (by omega) rest
+      simp only [pKind, hl]
+      simpa [printKind, normK] using hg
+    | false =>
+      have hne : as ≠ .none := by
+        intro hh; subst hh; simp at h
+      have hl : lead (printKind (.callSub false as fn args) ++ rest) = .generic := by
+        simp only [printKind, Bool.false_eq_true, if_false, List.cons_append, List.nil_append]
+        rw [lead_other (Or.inl (sk_ident h.1.1.1))]; simp [leadByClass, cl_ident h.1.1.1]
+      have hg := pGeneric_callSub as fn args h.1.1.1 h.1.1.2 h.1.2 hne f' (by omega) rest
+      simp only [pKind, hl]
+      simpa [printKind, normK] using hg
+  | .label n, h, f, rest, hf, _ => by
+    simp only [needK] at hf
+    obtain ⟨f', rfl⟩ : ∃ f', f = f' + 1 := ⟨f - 1, by omega⟩
+    have hn : identOK n = true := by simpa [OKK] using h
+    have hl : lead (printKind (.label n) ++ rest) = .label n := by
+      simp only [printKind, List.cons_append, List.nil_append]
+      rw [lead_other (Or.inl (sk_ident hn))]; simp [leadByClass, cl_ident hn]
+    simp only [pKind, hl]
+    simp [printKind, normK]
+  | .interrupt e, h, f, rest, hf, _ => by
+    simp only [needK] at hf
+    obtain ⟨f', rfl⟩ : ∃ f', f = f' + 1 := ⟨f - 1, by omega⟩
+    have he : NoGlue e = true := by simpa [OKK] using h
+    have hl : lead (printKind (.interrupt e) ++ rest) = .interrupt := lead_of_sk_kw (by simp)
+    have hx := exprAt_print e he false f' (by omega) (tRb :: tColon :: rest) (by simp [closes])
+    simp only [pKind, hl]
+    simp [printKind, hx, normK]
+  | .absTime t, _, f, rest, hf, _ => by
+    simp only [needK] at hf
+    obtain ⟨f', rfl⟩ : ∃ f', f = f' + 1 := ⟨f - 1, by omega⟩
+    rcases shape_printI32 t with ⟨_, hn⟩ | ⟨_, hp⟩
+    · obtain ⟨r, hr, hv⟩ := numToks_neg hn
+      have hl : lead (printKind (.absTime t) ++ rest) = .absTime r true := by
+        simp only [printKind, hr, List.cons_append, List.nil_append]
+        rw [lead_other (Or.inl sk_minus)]; simp [leadByClass]
+      simp only [pKind, hl]
+      simp [printKind, hr, hv, normK]
+    · have hv := hp.2.2.2
+      have hl : lead (printKind (.absTime t) ++ rest) = .absTime (printI32 t) false := by
+        simp only [printKind, numToks_plain hp, List.cons_append, List.nil_append]
+        rw [lead_other (Or.inl (sk_int _))]; simp [leadByClass]
+      simp only [pKind, hl]
+      simp [printKind, numToks_plain hp, hv, normK]
+  | .relTime d, h, f, rest, hf, _ => by
+    simp only [OKK, Bool.and_eq_true] at h
+    simp only [needK] at hf
+    obtain ⟨f', rfl⟩ : ∃ f', f = f' + 1 := ⟨f - 1, by omega⟩
+    have hl : lead (printKind (.relTime d) ++ rest) = .relTime := by
+      simp only [printKind, List.cons_append]
+      rw [lead_other (Or.inl sk_plus)]; simp [leadByClass]
+    have hx := exprNCAt_print d h.1 f' (by omega) (tColon :: rest) (by simp [stopsTerm]) (by simp [binOpOf])
+    simp only [pKind, hl]
+    simp [printKind, hx, normK]
+theorem pItemsB_print : ∀ (b : Block), OKB b = true → ∀ (f : Nat) (rest : List Tok), needB b ≤ f →
+    pItemsB f (printStmts b ++ tRbrace :: rest) = some (normB b, rest)
+  | .nil, _, f, rest, hf => by
+    simp only [needB] at hf
+    obtain ⟨f', rfl⟩ : ∃ f', f = f' + 1 := ⟨f - 1, by omega⟩
+    simp [printStmts, pItemsB, normB]
+  | .cons d k b, h, f, rest, hf => by
+    simp only [OKB, Bool.and_eq_true] at h
+    simp only [needB] at hf
+    obtain ⟨g, rfl⟩ : ∃ g, f = g + 1 := ⟨f - 1, by omega⟩
+    have hhead := (stmt_head_sk d k h.1.2 (printStmts b ++ tRbrace :: rest)).1
+    have ihb := pItemsB_print b h.2 g rest (by omega)
+    have hst : pStmt g (diffToks d ++ (printKind k ++ (printStmts b ++ tRbrace :: rest))) =
+        some ((d, normK k), printStmts b ++ tRbrace :: rest) := by
+      obtain ⟨f', rfl⟩ : ∃ f', g = f' + 1 := ⟨g - 1, by omega⟩
+      have ihk := pKind_print k h.1.2 f' (printStmts b ++ tRbrace :: rest) (by omega) (items_head_sk b h.2 rest)
+      cases d with
+      | none =>
+        have hd := diffLabelAt_kind k h.1.2 (printStmts b ++ tRbrace :: rest)
+        simp only [diffToks, List.nil_append, pStmt, hd, ihk]
+      | some s =>
+        have hph : k.isPhysical = true := by simpa using h.1.1
+        simp only [diffToks, List.cons_append, List.nil_append, pStmt]
+        simp [diffLabelAt, parse_escape, ihk, normK_isPhysical, hph]
+    simp only [printStmts, List.append_assoc, pItemsB]
+    simp only [hst, ihb]
+    simp [hhead, normB]
+theorem pChain_print : ∀ (c : Chain), OKC c = true → ∀ (f : Nat) (rest : List Tok), needC c ≤ f → hs rest ≠ some .kElse →
+    pChain f (printChain c ++ rest) = some (normC c, rest)
+  | .nil, _, f, rest, hf, hne => by
+    simp only [needC] at hf
+    obtain ⟨f', rfl⟩ : ∃ f', f = f' + 1 := ⟨f - 1, by omega⟩
+    simp [printChain, pChain, hne, normC]
+  | .els b, h, f, rest, hf, _ => by
+    simp only [needC] at hf
+    obtain ⟨f', rfl⟩ : ∃ f', f = f' + 1 := ⟨f - 1, by omega⟩
+    have hb : OKB b = true := by simpa [OKC] using h
+    have ihb := pItemsB_print b hb f' rest (by omega)
+    simp [printChain, braces, pChain, ihb, normC]
+  | .elif kw c b ch, h, f, rest, hf, hne => by
+    simp only [OKC, Bool.and_eq_true] at h
+    simp only [needC] at hf
+    obtain ⟨f', rfl⟩ : ∃ f', f = f' + 1 := ⟨f - 1, by omega⟩
+    have hp := pParenExpr_print c h.1.1 f' (by omega) (tLbrace :: (printStmts b ++ tRbrace :: (printChain ch ++ rest)))
+    have ihb := pItemsB_print b h.1.2 f' (printChain ch ++ rest) (by omega)
+    have ihc := pChain_print ch h.2 f' rest (by omega) hne
+    cases kw <;> simp [printChain, braces, pChain, hp, ihb, ihc, normC]
+end
+
+theorem pStmt_print (d : Option (List Char)) (k : Kind) (hd' : (d.isNone || k.isPhysical) = true) (hk : OKK k = true)
+    (g : Nat) (hg : needK k + 1 ≤ g) (rest : List Tok) (hne : hs rest ≠ some .kElse) :
+    pStmt g (diffToks d ++ (printKind k ++ rest)) = some ((d, normK k), rest) := by
+  obtain ⟨f', rfl⟩ : ∃ f', g = f' + 1 := ⟨g - 1, by omega⟩
+  have ihk := pKind_print k hk f' rest (by omega) hne
+  cases d with
+  | none =>
+    have hd := diffLabelAt_kind k hk rest
+    simp only [diffToks, List.nil_append, pStmt, hd, ihk]
+  | some s =>
+    have hph : k.isPhysical = true := by simpa using hd'
+    simp only [diffToks, List.cons_append, List.nil_append, pStmt]
+    simp [diffLabelAt, parse_escape, ihk, normK_isPhysical, hph]
+
+/-! ## the fuel `parseStmt` / `parseBlock` supply suffices -/
+
+theorem needD_le : ∀ (vars : List (Var × Option Expr)), declOK vars = true → needD vars ≤ 40 * (declToks vars).length + 20
+  | [], _ => by simp [needD]
+  | (v, none) :: vs, h => by
+    simp only [declOK, Bool.and_eq_true] at h
+    have ih := needD_le vs h.2
+    have hv := varToks_len v
+    simp only [needD, declToks, List.length_append]
+    omega
+  | (v, some e) :: vs, h => by
+    simp only [declOK, Bool.and_eq_true] at h
+    have ih := needD_le vs h.2
+    have hv := varToks_len v
+    have h1 := cost_le e h.1.2
+    have h2 := len_true_le_false e
+    simp only [needD, declToks, List.length_append, List.length_cons]
+    omega
+
+theorem printKind_len (k : Kind) (h : OKK k = true) : 1 ≤ (printKind k).length := by
+  obtain ⟨t0, r0, hp, _⟩ := (kind_head k h).ne
+  rw [hp]; simp
+
+mutual
+theorem needK_le : ∀ (k : Kind), OKK k = true → needK k ≤ 40 * (printKind k).length + 20
+  | .jump j, _ => by simp [needK]
+  | .ret none, _ => by simp [needK]
+  | .ret (some e), h => by
+    have he : NoGlue e = true := by simpa [OKK] using h
+    have h1 := cost_le e he; have h2 := len_true_le_false e
+    simp only [needK, printKind, List.length_append, List.length_cons, List.length_nil]
+    omega
+  | .condJump kw c j, h => by
+    simp only [OKK, Bool.and_eq_true] at h
+    have h1 := cost_le c h.1
+    simp only [needK, printKind, List.length_append, List.length_cons]
+    omega
+  | .condChain kw c b ch, h => by
+    simp only [OKK, Bool.and_eq_true] at h
+    have h1 := cost_le c h.1.1
+    have h2 := needB_le b h.1.2
+    have h3 := needC_le ch h.2
+    simp only [needK, printKind, braces, List.length_append, List.length_cons, List.length_nil]
+    omega
+  | .loop b, h => by
+    have h2 := needB_le b (by simpa [OKK] using h)
+    simp only [needK, printKind, braces, List.length_append, List.length_cons, List.length_nil]
+    omega
+  | .while_ c b, h => by
+    simp only [OKK, Bool.and_eq_true] at h
+    have h1 := cost_le c h.1
+    have h2 := needB_le b h.2
+    simp only [needK, printKind, braces, List.length_append, List.length_cons, List.length_nil]
+    omega
+  | .doWhile b c, h => by
+    simp only [OKK, Bool.and_eq_true] at h
+    have h1 := cost_le c h.2
+    have h2 := needB_le b h.1
+    simp only [needK, printKind, braces, List.length_append, List.length_cons, List.length_nil]
+    omega
+  | .times clb n b, h => by
+    simp only [OKK, Bool.and_eq_true] at h
+    have h1 := cost_le n h.1.2
+    have h2 := needB_le b h.2
+    simp only [needK, printKind, braces, List.length_append, List.length_cons, List.length_nil]
+    omega
+  | .expr e, h => by
+    have he : NoGlue e = true := by simpa [OKK] using h
+    have h1 := cost_le e he; have h2 := len_true_le_false e
+    simp only [needK, printKind, List.length_append, List.length_cons, List.length_nil]
+    omega
+  | .block b, h => by
+    have h2 := needB_le b (by simpa [OKK] using h)
+    simp only [needK, printKind, braces, List.length_append, List.length_cons, List.length_nil]
+    omega
+  | .assign v op e, h => by
+    simp only [OKK, Bool.and_eq_true] at h
+    have h1 := cost_le e h.2
+    simp only [needK, printKind, List.length_append, List.length_cons, List.length_nil]
+    omega
+  | .decl ty vars, h => by
+    simp only [OKK, Bool.and_eq_true] at h
+    have h1 := needD_le vars h.2
+    simp only [needK, printKind, List.length_append, List.length_cons, List.length_nil]
+    omega
+  | .callSub atSym as fn args, h => by
+    simp only [OKK, Bool.and_eq_true] at h
+    have h1 := costAs_le args h.1.1.2
+    have h2 : needAsync as ≤ 40 * (asyncToks as).length := by
+      cases as with
+      | none => simp [needAsync]
+      | plain => simp [needAsync]
+      | id e =>
+        have he : NoGlue e = true := by simpa [asyncOK] using h.1.2
+        have h1 := cost_le e he; have h2 := len_true_le_false e
+        simp only [needAsync, asyncToks, List.length_cons]
+        omega
+    simp only [needK, printKind, List.length_append, List.length_cons, List.length_nil]
+    omega
+  | .label n, _ => by simp [needK]
+  | .interrupt e, h => by
+    have he : NoGlue e = true := by simpa [OKK] using h
+    have h1 := cost_le e he; have h2 := len_true_le_false e
+    simp only [needK, printKind, List.length_append, List.length_cons, List.length_nil]
+    omega
+  | .absTime t, _ => by simp [needK]
+  | .relTime d, h => by
+    simp only [OKK, Bool.and_eq_true] at h
+    have h1 := cost_le d h.1; have h2 := len_true_le_false d
+    simp only [needK, printKind, List.length_append, List.length_cons, List.length_nil]
+    omega
+theorem needB_le : ∀ (b : Block), OKB b = true → needB b ≤ 40 * (printStmts b).length + 40
+  | .nil, _ => by simp [needB]
+  | .cons d k b, h => by
+    simp only [OKB, Bool.and_eq_true] at h
+    have h1 := needK_le k h.1.2
+    have h2 := needB_le b h.2
+    have h3 := printKind_len k h.1.2
+    simp only [needB, printStmts, List.length_append]
+    omega
+theorem needC_le : ∀ (c : Chain), OKC c = true → needC c ≤ 40 * (printChain c).length + 40
+  | .nil, _ => by simp [needC]
+  | .els b, h => by
+    have h2 := needB_le b (by simpa [OKC] using h)
+    simp only [needC, printChain, braces, List.length_append, List.length_cons, List.length_nil]
+    omega
+  | .elif kw c b ch, h => by
+    simp only [OKC, Bool.and_eq_true] at h
+    have h1 := cost_le c h.1.1
+    have h2 := needB_le b h.1.2
+    have h3 := needC_le ch h.2
+    simp only [needC, printChain, braces, List.length_append, List.length_cons, List.length_nil]
+    omega
+end
+
+/-! ## C08, statement layer: a printed statement / block parses back to the same tree -/
+
+/-- with explicit fuel and inside any context that does not continue with `else` -/
+theorem stmt_print_parse_in_context (s : Stmt) (h : OKS s = true) (fuel : Nat) (hf : needK s.kind + 1 ≤ fuel)
+    (rest : List Tok) (hne : hs rest ≠ some .kElse) :
+    pStmt fuel (printStmt s ++ rest) = some ((s.diff, normK s.kind), rest) := by
+  simp only [OKS, Bool.and_eq_true] at h
+  have := pStmt_print s.diff s.kind h.1 h.2 fuel hf rest hne
+  simpa [printStmt] using this
+
+/-- **C08, statements: printed tokens parse back to the same statement.**  For every statement
+inside `OKS` (embedded expressions without glue sites, names that are identifier tokens, …) the
+statement parser accepts the tokens the formatter writes and builds the same statement up to
+`normS`: the same kind with the same labels, jump targets and times, assign-ops, declared
+variables, nested blocks statement by statement, `else` parts on the same chain, and every
+embedded expression as `expr_print_parse` returns it. -/
+theorem stmt_print_parse (s : Stmt) (h : OKS s = true) : parseStmt (printStmt s) = some (normS s) := by
+  have hk : OKK s.kind = true := by simp only [OKS, Bool.and_eq_true] at h; exact h.2
+  have hb := needK_le s.kind hk
+  have hlen : (printKind s.kind).length ≤ (printStmt s).length := by simp [printStmt]
+  have := stmt_print_parse_in_context s h (stmtFuel (printStmt s)) (by simp only [stmtFuel]; omega) [] (by simp)
+  simp only [List.append_nil] at this
+  simp [parseStmt, parseStmtFuel, this, normS]
+
+/-- **C08, blocks: a printed block parses back to the same block**, every statement of it in order -/
+theorem block_print_parse_fuel (b : Block) (h : OKB b = true) (fuel : Nat) (hf : needB b ≤ fuel) :
+    parseBlockFuel fuel (printBlock b) = some (normB b) := by
+  have := pItemsB_print b h fuel [] hf
+  simp [parseBlockFuel, printBlock, braces, this]
+
+theorem block_print_parse (b : Block) (h : OKB b = true) : parseBlock (printBlock b) = some (normB b) := by
+  have hb := needB_le b h
+  exact block_print_parse_fuel b h _ (by simp only [stmtFuel, printBlock, braces, List.length_cons, List.length_append]; omega)
+
+/-- on text: when the joined text lexes to the written tokens (compared with the real lexer on
+every generated statement, `stoks`), the printed text parses back to the same statement -/
+theorem stmt_print_parse_text (s : Stmt) (h : OKS s = true) (text : List Char)
+    (hl : lex text = (printStmt s, .eof)) : parseStmtText text = some (normS s) := by
+  unfold parseStmtText
+  rw [hl]
+  exact stmt_print_parse s h
+
+/-! ## printing again -/
+
+/-- the literals of the expression print without a sign and carry no radix hint
+(`expr_print_idempotent`) -/
+def idemE (e : Expr) : Bool := NoNegLit e && HintFree e
+
+def idemDecl : List (Var × Option Expr) → Bool
+  | [] => true
+  | (_, none) :: rest => idemDecl rest
+  | (_, some e) :: rest => idemE e && idemDecl rest
+
+def idemAsync : Async → Bool
+  | .id e => idemE e
+  | _ => true
+
+mutual
+/-- every embedded expression is inside the fragment of `expr_print_idempotent`, and an explicit
+sub call carries the `@` the parser always sets -/
+def IdemK : Kind → Bool
+  | .jump _ => true
+  | .ret none => true
+  | .ret (some e) => idemE e
+  | .condJump _ c _ => idemE c
+  | .condChain _ c b rest => idemE c && IdemB b && IdemC rest
+  | .loop b => IdemB b
+  | .while_ c b => idemE c && IdemB b
+  | .doWhile b c => IdemB b && idemE c
+  | .times _ n b => idemE n && IdemB b
+  | .expr e => idemE e
+  | .block b => IdemB b
+  | .assign _ _ e => idemE e
+  | .decl _ vars => idemDecl vars
+  | .callSub atSym as _ args => atSym && idemAsync as && NoNegLitAs args && HintFreeAs args
+  | .label _ => true
+  | .interrupt e => idemE e
+  | .absTime _ => true
+  | .relTime d => idemE d
+def IdemB : Block → Bool
+  | .nil => true
+  | .cons _ k rest => IdemK k && IdemB rest
+def IdemC : Chain → Bool
+  | .nil => true
+  | .els b => IdemB b
+  | .elif _ c b rest => idemE c && IdemB b && IdemC rest
+end
+
+theorem printE_norm_idem (e : Expr) (sup : Bool) (h : idemE e = true) : printE sup (norm e) = printE sup e := by
+  simp only [idemE, Bool.and_eq_true] at h
+  exact print_norm e sup h.1 h.2
+
+theorem normDecl_isEmpty (vars : List (Var × Option Expr)) : (normDecl vars).isEmpty = vars.isEmpty := by
+  cases vars with
+  | nil => rfl
+  | cons x xs => obtain ⟨v, oe⟩ := x; cases oe <;> rfl
+
+theorem declToks_norm : ∀ (vars : List (Var × Option Expr)), idemDecl vars = true → declToks (normDecl vars) = declToks vars
+  | [], _ => rfl
+  | (v, none) :: vs, h => by
+    simp only [idemDecl] at h
+    simp [normDecl, declToks, declToks_norm vs h, normDecl_isEmpty]
+  | (v, some e) :: vs, h => by
+    simp only [idemDecl, Bool.and_eq_true] at h
+    simp [normDecl, declToks, declToks_norm vs h.2, normDecl_isEmpty, printE_norm_idem e false h.1]
+
+mutual
+theorem printKind_norm : ∀ (k : Kind), IdemK k = true → printKind (normK k) = printKind k
+  | .jump j, _ => rfl
+  | .ret none, _ => rfl
+  | .ret (some e), h => by simp [normK, printKind, printE_norm_idem e false (by simpa [IdemK] using h)]
+  | .condJump kw c j, h => by simp [normK, printKind, printE_norm_idem c true (by simpa [IdemK] using h)]
+  | .condChain kw c b ch, h => by
+    simp only [IdemK, Bool.and_eq_true] at h
+    simp [normK, printKind, printE_norm_idem c true h.1.1, printStmts_norm b h.1.2, printChain_norm ch h.2]
+  | .loop b, h => by simp [normK, printKind, printStmts_norm b (by simpa [IdemK] using h)]
+  | .while_ c b, h => by
+    simp only [IdemK, Bool.and_eq_true] at h
+    simp [normK, printKind, printE_norm_idem c true h.1, printStmts_norm b h.2]
+  | .doWhile b c, h => by
+    simp only [IdemK, Bool.and_eq_true] at h
+    simp [normK, printKind, printE_norm_idem c true h.2, printStmts_norm b h.1]
+  | .times clb n b, h => by
+    simp only [IdemK, Bool.and_eq_true] at h
+    simp [normK, printKind, printE_norm_idem n true h.1, printStmts_norm b h.2]
+  | .expr e, h => by simp [normK, printKind, printE_norm_idem e false (by simpa [IdemK] using h)]
+  | .block b, h => by simp [normK, printKind, printStmts_norm b (by simpa [IdemK] using h)]
+  | .assign v op e, h => by simp [normK, printKind, printE_norm_idem e true (by simpa [IdemK] using h)]
+  | .decl ty vars, h => by simp [normK, printKind, declToks_norm vars (by simpa [IdemK] using h)]
+  | .callSub atSym as fn args, h => by
+    simp only [IdemK, Bool.and_eq_true] at h
+    have ha : asyncToks (normAsync as) = asyncToks as := by
+      cases as with
+      | none => rfl
+      | plain => rfl
+      | id e => simp [normAsync, asyncToks, printE_norm_idem e false (by simpa [idemAsync] using h.1.1.2)]
+    simp [normK, printKind, h.1.1.1, ha, print_normAs args h.1.2 h.2]
+  | .label n, _ => rfl
+  | .interrupt e, h => by simp [normK, printKind, printE_norm_idem e false (by simpa [IdemK] using h)]
+  | .absTime t, _ => rfl
+  | .relTime d, h => by simp [normK, printKind, printE_norm_idem d false (by simpa [IdemK] using h)]
+theorem printStmts_norm : ∀ (b : Block), IdemB b = true → printStmts (normB b) = printStmts b
+  | .nil, _ => rfl
+  | .cons d k b, h => by
+    simp only [IdemB, Bool.and_eq_true] at h
+    simp [normB, printStmts, printKind_norm k h.1, printStmts_norm b h.2]
+theorem printChain_norm : ∀ (c : Chain), IdemC c = true → printChain (normC c) = printChain c
+  | .nil, _ => rfl
+  | .els b, h => by simp [normC, printChain, printStmts_norm b (by simpa [IdemC] using h)]
+  | .elif kw c b ch, h => by
+    simp only [IdemC, Bool.and_eq_true] at h
+    simp [normC, printChain, printE_norm_idem c true h.1.1, printStmts_norm b h.1.2, printChain_norm ch h.2]
+end
+
+/-- **C08, statements: printing the re-parsed statement gives the same tokens again**, when the
+embedded expressions are inside the fragment of `expr_print_idempotent` and an explicit sub call
+has its `@` -/
+theorem stmt_print_idempotent (s : Stmt) (h : IdemK s.kind = true) : printStmt (normS s) = printStmt s := by
+  simp [printStmt, normS, printKind_norm s.kind h]
+
+theorem block_print_idempotent (b : Block) (h : IdemB b = true) : printBlock (normB b) = printBlock b := by
+  simp [printBlock, printStmts_norm b h]
+
+/-- print, parse, print: the second print equals the first, and it parses again to the same statement -/
+theorem stmt_print_parse_print (s : Stmt) (hok : OKS s = true) (h : IdemK s.kind = true) :
+    ∃ s', parseStmt (printStmt s) = some s' ∧ printStmt s' = printStmt s ∧ parseStmt (printStmt s') = some s' := by
+  refine ⟨normS s, stmt_print_parse s hok, stmt_print_idempotent s h, ?_⟩
+  rw [stmt_print_idempotent s h]
+  exact stmt_print_parse s hok
+
+theorem block_print_parse_print (b : Block) (hok : OKB b = true) (h : IdemB b = true) :
+    ∃ b', parseBlock (printBlock b) = some b' ∧ printBlock b' = printBlock b ∧ parseBlock (printBlock b') = some b' := by
+  refine ⟨normB b, block_print_parse b hok, block_print_idempotent b h, ?_⟩
+  rw [block_print_idempotent b h]
+  exact block_print_parse b hok
+
+/-! ## layout of statements: the width changes only white space, line breaks and trailing commas -/
+
+/-- the tokens a run of documents denotes, separating commas as tokens -/
+def ct (ds : XDocs) : List Piece := commaTok ds.toksSeq
+
+@[simp] theorem ct_nil : ct .nil = [] := rfl
+@[simp] theorem ct_cons_tok (t : Tok) (ds : XDocs) : ct (.cons (.tok t) ds) = .tok (tokChars t) :: ct ds := by
+  simp [ct, XDocs.toksSeq, XDoc.toks, commaTok_cons_tok]
+@[simp] theorem ct_cons_tk (t : Tok) (ds : XDocs) : ct (.cons (tk t) ds) = .tok (tokChars t) :: ct ds := ct_cons_tok t ds
+@[simp] theorem ct_cons_sp (ds : XDocs) : ct (.cons .sp ds) = ct ds := by
+  simp [ct, XDocs.toksSeq, XDoc.toks]
+@[simp] theorem ct_append (a b : XDocs) : ct (a.append b) = ct a ++ ct b := by
+  simp [ct, toksSeq_append, commaTok_append]
+@[simp] theorem ct_ofToks (l : List Tok) : ct (XDocs.ofToks l) = tokTexts l := toksSeq_ofToks l
+@[simp] theorem ct_exprDocs (sup : Bool) (e : Expr) : ct (exprDocs sup e) = tokTexts (printE sup e) := docs_toks e sup
+@[simp] theorem ct_ofList_nil : ct (XDocs.ofList []) = [] := rfl
+@[simp] theorem ct_ofList_cons (d : XDoc) (r : List XDoc) : ct (XDocs.ofList (d :: r)) = ct (.cons d (XDocs.ofList r)) := rfl
+@[simp] theorem ct_cons_args (as : Exprs) (ds : XDocs) :
+    ct (.cons (.args (argDocs as)) ds) = .tok ['('] :: (tokTexts (printArgs as) ++ .tok [')'] :: ct ds) := by
+  simp only [ct, XDocs.toksSeq, XDoc.toks, (xtoks_eq_toksSep _).1, commaTok_append, commaTok_cons_tok, args_toks,
+    List.cons_append, List.append_assoc, List.nil_append]
+
+theorem tokTexts_singleton (t : Tok) : tokTexts [t] = [.tok (tokChars t)] := rfl
+
+theorem jumpDocs_ct (j : Jump) : ct (jumpDocs j) = tokTexts (jumpToks j) := by
+  cases j with
+  | brk => simp [jumpDocs, jumpToks, tokTexts_cons]
+  | goto d t => cases t <;> simp [jumpDocs, jumpToks, tokTexts_cons]
+
+theorem diffDocs_ct (d : Option (List Char)) : ct (diffDocs d) = tokTexts (diffToks d) := by
+  cases d <;> simp [diffDocs, diffToks, tokTexts_cons]
+
+theorem declDocs_ct : ∀ (vars : List (Var × Option Expr)) (first : Bool),
+    ct (declDocs vars first) = (if first || vars.isEmpty then [] else [.tok [',']]) ++ tokTexts (declToks vars)
+  | [], first => by simp [declDocs, declToks]
+  | (v, none) :: vs, first => by
+    have ih := declDocs_ct vs false
+    cases first <;> cases vs <;> simp_all [declDocs, declToks, tokTexts_cons, tokTexts_append, tokChars, tComma]
+  | (v, some e) :: vs, first => by
+    have ih := declDocs_ct vs false
+    cases first <;> cases vs <;> simp_all [declDocs, declToks, tokTexts_cons, tokTexts_append, tokChars, tComma]
+
+theorem asyncDocs_ct (as : Async) : ct (asyncDocs as) = tokTexts (asyncToks as) := by
+  cases as <;> simp [asyncDocs, asyncToks, tokTexts_cons]
+
+theorem clobberDocs_ct (clb : Option Var) : ct (clobberDocs clb) = tokTexts (clobberToks clb) := by
+  cases clb <;> simp [clobberDocs, clobberToks, tokTexts_cons, tokTexts_append]
+
+theorem condDocs_ct (kw : Tok) (c : Expr) :
+    ct (condDocs kw c) = .tok (tokChars kw) :: .tok (tokChars tLp) :: (tokTexts (printE true c) ++ [.tok (tokChars tRp)]) := by
+  simp [condDocs]
+
+/-- the essential pieces of the state, commas as tokens -/
+def T (st : FSt) : List Piece := commaTok (ess st.l.out)
+
+theorem T_docs (tw : Nat) (ds : XDocs) (st : FSt) : T (st.docs tw ds) = T st ++ ct ds := by
+  simp [T, FSt.docs, xblkSeq_ess, commaTok_append, ct]
+
+theorem T_tok (t : Tok) (st : FSt) : T (st.tok t) = T st ++ [.tok (tokChars t)] := by
+  simp [T, FSt.tok, ess_xw, ess_tok, commaTok]
+
+theorem T_nextLine (st : FSt) : T st.nextLine = T st := by
+  unfold FSt.nextLine
+  split
+  · rfl
+  · simp [T, ess_newline]
+
+theorem T_openB (st : FSt) : T st.openB = T st ++ [.tok (tokChars tLbrace)] := by
+  simp only [FSt.openB]
+  show T ((st.tok tLbrace).nextLine) = _
+  rw [T_nextLine, T_tok]
+
+theorem T_closeB (st : FSt) : T st.closeB = T st ++ [.tok (tokChars tRbrace)] := by
+  simp only [FSt.closeB]
+  rw [T_tok]
+  rfl
+
+theorem T_label (tw : Nat) (ds : XDocs) (st st' : FSt) (h : st.label tw ds = .ok st') : T st' = T st ++ ct ds := by
+  unfold FSt.label at h
+  split at h
+  · dsimp only at h
+    split at h
+    · simp only [Outcome.ok.injEq] at h
+      subst h
+      rw [T_nextLine]
+      simp [T, xblkSeq_ess, commaTok_append, ct]
+    · cases h
+  · simp only [Outcome.ok.injEq] at h
+    subst h
+    simp [T, ess_xw, ess_space, xblkSeq_ess, commaTok_append, ct]
+
+theorem T_with (st : FSt) (a b : Bool) : T { st with suppress := a, prevInt := b } = T st := rfl
+theorem T_with_s (st : FSt) (a : Bool) : T { st with suppress := a } = T st := rfl
+
+mutual
+theorem rKind_toks (tw : Nat) : ∀ (k : Kind) (st st' : FSt), rKind tw k st = .ok st' → T st' = T st ++ tokTexts (printKind k)
+  | .jump j, st, st', h => by
+    simp only [rKind, Outcome.ok.injEq] at h; subst h
+    simp [T_docs, jumpDocs_ct, printKind, tokTexts_append, tokTexts_cons]
+  | .ret none, st, st', h => by
+    simp only [rKind, Outcome.ok.injEq] at h; subst h
+    simp [T_docs, printKind, tokTexts_cons]
+  | .ret (some e), st, st', h => by
+    simp only [rKind, Outcome.ok.injEq] at h; subst h
+    simp [T_docs, printKind, tokTexts_append, tokTexts_cons]
+  | .condJump kw c j, st, st', h => by
+    simp only [rKind, Outcome.ok.injEq] at h; subst h
+    simp [T_docs, condDocs_ct, jumpDocs_ct, printKind, tokTexts_append, tokTexts_cons]
+  | .condChain kw c b ch, st, st', h => by
+    simp only [rKind] at h
+    cases hR : rItems tw b (st.docs tw (condDocs kw.tok c)).openB with
+    | ok st1 =>
+      rw [hR] at h
+      have h1 := rItems_toks tw b _ _ hR
+      have h2 := rChain_toks tw ch _ _ h
+      rw [h2, T_closeB, h1, T_openB, T_docs]
+      simp [condDocs_ct, printKind, braces, tokTexts_append, tokTexts_cons]
+    | err c => rw [hR] at h; cases h
+    | panic p => rw [hR] at h; cases h
+  | .loop b, st, st', h => by
+    simp only [rKind] at h
+    cases hR : rItems tw b (st.docs tw (XDocs.ofList [tk tLoop, .sp])).openB with
+    | ok st1 =>
+      rw [hR] at h
+      simp only [Outcome.ok.injEq] at h; subst h
+      rw [T_closeB, rItems_toks tw b _ _ hR, T_openB, T_docs]
+      simp [printKind, braces, tokTexts_append, tokTexts_cons]
+    | err c => rw [hR] at h; cases h
+    | panic p => rw [hR] at h; cases h
+  | .while_ c b, st, st', h => by
+    simp only [rKind] at h
+    cases hR : rItems tw b (st.docs tw (condDocs tWhile c)).openB with
+    | ok st1 =>
+      rw [hR] at h
+      simp only [Outcome.ok.injEq] at h; subst h
+      rw [T_closeB, rItems_toks tw b _ _ hR, T_openB, T_docs]
+      simp [condDocs_ct, printKind, braces, tokTexts_append, tokTexts_cons]
+    | err c => rw [hR] at h; cases h
+    | panic p => rw [hR] at h; cases h
+  | .doWhile b c, st, st', h => by
+    simp only [rKind] at h
+    cases hR : rItems tw b (st.docs tw (XDocs.ofList [tk tDo, .sp])).openB with
+    | ok st1 =>
+      rw [hR] at h
+      simp only [Outcome.ok.injEq] at h; subst h
+      rw [T_docs, T_closeB, rItems_toks tw b _ _ hR, T_openB, T_docs]
+      simp [printKind, braces, tokTexts_append, tokTexts_cons]
+    | err c => rw [hR] at h; cases h
+    | panic p => rw [hR] at h; cases h
+  | .times clb n b, st, st', h => by
+    simp only [rKind] at h
+    cases hR : rItems tw b (st.docs tw (.cons (tk tTimes) (.cons (tk tLp)
+        ((clobberDocs clb).append ((exprDocs true n).append (XDocs.ofList [tk tRp, .sp])))))).openB with
+    | ok st1 =>
+      rw [hR] at h
+      simp only [Outcome.ok.injEq] at h; subst h
+      rw [T_closeB, rItems_toks tw b _ _ hR, T_openB, T_docs]
+      simp [clobberDocs_ct, printKind, braces, tokTexts_append, tokTexts_cons]
+    | err c => rw [hR] at h; cases h
+    | panic p => rw [hR] at h; cases h
+  | .expr e, st, st', h => by
+    simp only [rKind, Outcome.ok.injEq] at h; subst h
+    simp [T_docs, printKind, tokTexts_append, tokTexts_cons]
+  | .block b, st, st', h => by
+    simp only [rKind] at h
+    cases hR : rItems tw b st.openB with
+    | ok st1 =>
+      rw [hR] at h
+      simp only [Outcome.ok.injEq] at h; subst h
+      rw [T_closeB, rItems_toks tw b _ _ hR, T_openB]
+      simp [printKind, braces, tokTexts_append, tokTexts_cons]
+    | err c => rw [hR] at h; cases h
+    | panic p => rw [hR] at h; cases h
+  | .assign v op e, st, st', h => by
+    simp only [rKind, Outcome.ok.injEq] at h; subst h
+    simp [T_docs, printKind, tokTexts_append, tokTexts_cons]
+  | .decl ty vars, st, st', h => by
+    simp only [rKind, Outcome.ok.injEq] at h; subst h
+    simp [T_docs, declDocs_ct, printKind, tokTexts_append, tokTexts_cons]
+  | .callSub atSym as fn args, st, st', h => by
+    simp only [rKind, Outcome.ok.injEq] at h; subst h
+    cases atSym <;> simp [T_docs, asyncDocs_ct, printKind, tokTexts_append, tokTexts_cons, tokChars, tLp, tRp]
+  | .label n, st, st', h => by
+    simp only [rKind] at h
+    cases hR : st.label tw (XDocs.ofList [tk (.word n), tk tColon]) with
+    | ok st1 =>
+      rw [hR] at h
+      simp only [Outcome.ok.injEq] at h; subst h
+      rw [T_with_s, T_label tw _ _ _ hR]
+      simp [printKind, tokTexts_cons]
+    | err c => rw [hR] at h; cases h
+    | panic p => rw [hR] at h; cases h
+  | .interrupt e, st, st', h => by
+    simp only [rKind] at h
+    cases hR : (if st.prevInt then st else st.nextLine).label tw
+        (.cons (tk tInterrupt) (.cons (tk tLb) ((exprDocs false e).append (XDocs.ofList [tk tRb, tk tColon])))) with
+    | ok st1 =>
+      rw [hR] at h
+      simp only [Outcome.ok.injEq] at h; subst h
+      rw [T_with, T_label tw _ _ _ hR]
+      have : T (if st.prevInt then st else st.nextLine) = T st := by split <;> simp [T_nextLine]
+      rw [this]
+      simp [printKind, tokTexts_append, tokTexts_cons]
+    | err c => rw [hR] at h; cases h
+    | panic p => rw [hR] at h; cases h
+  | .absTime t, st, st', h => by
+    simp only [rKind] at h
+    cases hR : st.label tw ((XDocs.ofToks (numToks (printI32 t))).append (.cons (tk tColon) .nil)) with
+    | ok st1 =>
+      rw [hR] at h
+      simp only [Outcome.ok.injEq] at h; subst h
+      rw [T_with_s, T_label tw _ _ _ hR]
+      simp [printKind, tokTexts_append, tokTexts_cons]
+    | err c => rw [hR] at h; cases h
+    | panic p => rw [hR] at h; cases h
+  | .relTime d, st, st', h => by
+    simp only [rKind] at h
+    cases hR : st.label tw (.cons (tk tPlus) ((exprDocs false d).append (.cons (tk tColon) .nil))) with
+    | ok st1 =>
+      rw [hR] at h
+      simp only [Outcome.ok.injEq] at h; subst h
+      rw [T_with_s, T_label tw _ _ _ hR]
+      simp [printKind, tokTexts_append, tokTexts_cons]
+    | err c => rw [hR] at h; cases h
+    | panic p => rw [hR] at h; cases h
+theorem rItems_toks (tw : Nat) : ∀ (b : Block) (st st' : FSt), rItems tw b st = .ok st' → T st' = T st ++ tokTexts (printStmts b)
+  | .nil, st, st', h => by
+    simp only [rItems, Outcome.ok.injEq] at h; subst h
+    simp [printStmts]
+  | .cons d k b, st, st', h => by
+    simp only [rItems] at h
+    cases hR : rKind tw k (st.docs tw (diffDocs d)) with
+    | ok st1 =>
+      rw [hR] at h
+      rw [rItems_toks tw b _ _ h, T_nextLine, rKind_toks tw k _ _ hR, T_docs, diffDocs_ct]
+      simp [printStmts, tokTexts_append]
+    | err c => rw [hR] at h; cases h
+    | panic p => rw [hR] at h; cases h
+theorem rChain_toks (tw : Nat) : ∀ (c : Chain) (st st' : FSt), rChain tw c st = .ok st' → T st' = T st ++ tokTexts (printChain c)
+  | .nil, st, st', h => by
+    simp only [rChain, Outcome.ok.injEq] at h; subst h
+    simp [printChain]
+  | .els b, st, st', h => by
+    simp only [rChain] at h
+    cases hR : rItems tw b (st.docs tw (XDocs.ofList [.sp, tk tElse, .sp])).openB with
+    | ok st1 =>
+      rw [hR] at h
+      simp only [Outcome.ok.injEq] at h; subst h
+      rw [T_closeB, rItems_toks tw b _ _ hR, T_openB, T_docs]
+      simp [printChain, braces, tokTexts_append, tokTexts_cons]
+    | err c => rw [hR] at h; cases h
+    | panic p => rw [hR] at h; cases h
+  | .elif kw c b ch, st, st', h => by
+    simp only [rChain] at h
+    cases hR : rItems tw b (st.docs tw (.cons .sp (.cons (tk tElse) (.cons .sp (condDocs kw.tok c))))).openB with
+    | ok st1 =>
+      rw [hR] at h
+      rw [rChain_toks tw ch _ _ h, T_closeB, rItems_toks tw b _ _ hR, T_openB, T_docs]
+      simp [condDocs_ct, printChain, braces, tokTexts_append, tokTexts_cons]
+    | err c => rw [hR] at h; cases h
+    | panic p => rw [hR] at h; cases h
+end
+
+/-- **layout of a statement changes only white space, line breaks and trailing commas**: at every
+width at which the formatter does not trip its label assertion, the laid-out pieces contain exactly
+the tokens of `printStmt s` (the tokens `stmt_print_parse` is about) -/
+theorem stmt_layout_tokens (w : Nat) (s : Stmt) (ps : List Piece) (h : renderStmtPieces w s = .ok ps) :
+    commaTok (ess ps) = tokTexts (printStmt s) := by
+  unfold renderStmtPieces at h
+  cases hR : rKind (w - 1) s.kind (FSt.init.docs (w - 1) (diffDocs s.diff)) with
+  | ok st =>
+    rw [hR] at h
+    simp only [Outcome.ok.injEq] at h
+    subst h
+    have := rKind_toks (w - 1) s.kind _ _ hR
+    rw [T_docs, diffDocs_ct] at this
+    simpa [T, FSt.init, LSt.init, ess, commaTok, printStmt, tokTexts_append] using this
+  | err c => rw [hR] at h; cases h
+  | panic p => rw [hR] at h; cases h
+
+theorem block_layout_tokens (w : Nat) (b : Block) (ps : List Piece) (h : renderBlockPieces w b = .ok ps) :
+    commaTok (ess ps) = tokTexts (printBlock b) := by
+  unfold renderBlockPieces at h
+  cases hR : rItems (w - 1) b FSt.init.openB with
+  | ok st =>
+    rw [hR] at h
+    simp only [Outcome.ok.injEq] at h
+    subst h
+    have h1 := rItems_toks (w - 1) b _ _ hR
+    have h2 := T_closeB st
+    rw [h1, T_openB] at h2
+    simpa [T, FSt.init, LSt.init, ess, commaTok, printBlock, braces, tokTexts_append, tokTexts_cons] using h2
+  | err c => rw [hR] at h; cases h
+  | panic p => rw [hR] at h; cases h
+
+/-- the token sequence does not depend on the width -/
+theorem stmt_layout_width_independent (w w' : Nat) (s : Stmt) (ps ps' : List Piece)
+    (h : renderStmtPieces w s = .ok ps) (h' : renderStmtPieces w' s = .ok ps') : commaTok (ess ps) = commaTok (ess ps') := by
+  rw [stmt_layout_tokens w s ps h, stmt_layout_tokens w' s ps' h']
+
+theorem block_layout_width_independent (w w' : Nat) (b : Block) (ps ps' : List Piece)
+    (h : renderBlockPieces w b = .ok ps) (h' : renderBlockPieces w' b = .ok ps') : commaTok (ess ps) = commaTok (ess ps') := by
+  rw [block_layout_tokens w b ps h, block_layout_tokens w' b ps' h']
+
+/-- **C08, statements at every width**: whatever the target width, the tokens of the laid-out
+statement are tokens that parse back to the same statement -/
+theorem stmt_print_parse_at_width (w : Nat) (s : Stmt) (hok : OKS s = true) (ps : List Piece)
+    (h : renderStmtPieces w s = .ok ps) :
+    ∃ toks, commaTok (ess ps) = tokTexts toks ∧ parseStmt toks = some (normS s) :=
+  ⟨printStmt s, stmt_layout_tokens w s ps h, stmt_print_parse s hok⟩
+
+theorem block_print_parse_at_width (w : Nat) (b : Block) (hok : OKB b = true) (ps : List Piece)
+    (h : renderBlockPieces w b = .ok ps) :
+    ∃ toks, commaTok (ess ps) = tokTexts toks ∧ parseBlock toks = some (normB b) :=
+  ⟨printBlock b, block_layout_tokens w b ps h, block_print_parse b hok⟩
+
+/-! ## examples, the glue site of the statement level, and the label assertion -/
+
+section stmtExamples
+def sx : Expr := .var { sigil := none, name := .normal ['x'] }
+def si (n : Int32) : Expr := .litInt n signedDec
+def sCall : Expr := .call (.normal ['f']) .nil (.cons (si 1) (.cons (.binop sx .add (si 2)) .nil))
+/-- a block with a call, a difficulty-labelled assignment to a register, every kind of label -/
+def sBlock : Block :=
+  .cons none (.expr sCall) (.cons (some ['E', 'N']) (.assign ⟨some .int, .reg 3⟩ .shl (.binop sx .mul (.litInt (-4) ⟨true, .hex⟩)))
+    (.cons none (.label ['l', 'b', 'l']) (.cons none (.interrupt (si 1)) (.cons none (.interrupt (si 2))
+      (.cons none (.absTime (-30)) (.cons none (.relTime (si 5)) .nil))))))
+/-- `if (x == 0) {..} else unless (x) { goto L @ -5; } else { int a = 1,b; @g(x) async x; times(c = 3) { do { } while (x); } }` -/
+def sStmt : Stmt :=
+  ⟨none, .condChain .if_ (.binop sx .eq (si 0)) sBlock
+    (.elif .unless sx (.cons none (.jump (.goto ['L'] (some (-5)))) .nil)
+      (.els (.cons none (.decl .int [(⟨none, .normal ['a']⟩, some (si 1)), (⟨none, .normal ['b']⟩, none)])
+        (.cons none (.callSub true (.id sx) ['g'] (.cons sx .nil))
+          (.cons none (.times (some ⟨none, .normal ['c']⟩) (si 3) (.cons none (.doWhile .nil sx) .nil)) .nil)))))⟩
+
+example : OKS sStmt = true ∧ IdemK sStmt.kind = false ∧ normS sStmt ≠ sStmt := by decide +kernel
+example : parseStmt (printStmt sStmt) = some (normS sStmt) := by decide +kernel
+/-- `loop { f(1, (x + 2)); lbl: {"E"}: interrupt[1]: interrupt[2]: }` -/
+def sSmall : Stmt :=
+  ⟨none, .loop (.cons none (.expr sCall) (.cons none (.label ['l', 'b', 'l'])
+    (.cons (some ['E']) (.interrupt (si 1)) (.cons none (.interrupt (si 2)) .nil))))⟩
+example : OKS sSmall = true ∧
+    renderStmt 1000 sSmall = .ok "loop {\n    f(1, (x + 2));\nlbl:\n    {\"E\"}:  \ninterrupt[1]:\ninterrupt[2]:\n}".toList ∧
+    renderStmt 12 sSmall =
+      .ok "loop {\n    f(\n        1,\n        (x + 2),\n    );\nlbl:\n    {\"E\"}:  \ninterrupt[1]:\ninterrupt[2]:\n}".toList := by
+  decide +kernel
+/-- the text at width `w` parses back to `normS s` -/
+def parsesBackAt (w : Nat) (s : Stmt) : Bool :=
+  match renderStmt w s with
+  | .ok t => parseStmtText t == some (normS s)
+  | _ => false
+/-- at width 12 the argument list of `f(..)` is written one item per line; the text still parses back -/
+example : parsesBackAt 12 sSmall = true ∧ parsesBackAt 1000 sSmall = true := by decide +kernel
+/-- a statement inside the fragment of `stmt_print_idempotent` / `stmt_print_parse_print` -/
+def sIdem : Stmt := ⟨some ['H'], .condJump .unless (.binop sx .lt (si 3)) (.goto ['e', 'n', 'd'] none)⟩
+example : OKS sIdem = true ∧ IdemK sIdem.kind = true ∧ printStmt (normS sIdem) = printStmt sIdem := by decide +kernel
+
+/-- `else` binds to the chain whose block was just closed; a second `else` is rejected; a body must be a block -/
+example : parseStmtText "if (a) { if (b) { } else { } }".toList ≠ parseStmtText "if (a) { if (b) { } } else { }".toList ∧
+    parseStmtText "if (a) { } else { } else { }".toList = none ∧
+    parseStmtText "if (a) if (b) { } else { }".toList = none ∧
+    parseStmtText "x = a : b;".toList ≠ none ∧ parseStmtText "a : b;".toList = none ∧
+    parseStmtText "-10:".toList = some ⟨none, .absTime (-10)⟩ ∧ parseStmtText "+-10:".toList ≠ none ∧
+    parseStmtText "{\"E\"}: lbl:".toList = none ∧ parseStmtText "int(x);".toList ≠ none ∧
+    parseStmtText "f() async;".toList = some ⟨none, .callSub true .plain ['f'] .nil⟩ := by decide +kernel
+end stmtExamples
+
+/-- **The glue site of the statement level** (known finding "plus-before-plus"): a relative time
+label whose delta begins with `++` is outside `OKS`; the tokens that were written would parse, but
+the text `+++x:` is lexed `++` `+` `x` `:` and rejected. -/
+theorem rel_label_plus_glue :
+    let s : Stmt := ⟨none, .relTime (.xcrement true true { sigil := none, name := .normal ['x'] })⟩
+    OKS s = false ∧ renderStmt 100 s = .ok "+++x:\n".toList ∧ parseStmtText "+++x:\n".toList = none ∧
+      parseStmt (printStmt s) = some s := by
+  decide +kernel
+
+/-- **The label assertion** (known finding "Detected line break in label"): an interrupt label
+whose expression holds a call that does not fit the width makes the formatter panic; at a larger
+width the same statement is printed. -/
+theorem label_break_panics :
+    let s : Stmt := ⟨none, .interrupt sCall⟩
+    renderStmt 8 s = .panic labelPanic ∧ renderStmt 80 s = .ok "\ninterrupt[f(1, (x + 2))]:\n".toList := by
+  decide +kernel
+
+/-! ## the full property at the statement level -/
+
+/-- C08 for statements: at every width the printed text parses to a statement that denotes the
+same statement and prints the same again. -/
+def stmts_parse_back_full : Prop :=
+  ∀ (w : Nat) (s : Stmt), ∃ text s', renderStmt w s = .ok text ∧ parseStmtText text = some s' ∧ normS s' = normS s ∧
+    renderStmt w s' = .ok text
+
+/-- it is false as stated: `+ ++x:` prints text that does not parse -/
+theorem stmts_parse_back_full_false : ¬ stmts_parse_back_full := by
+  intro h
+  obtain ⟨text, s', h1, h2, _⟩ := h 100 ⟨none, .relTime (.xcrement true true { sigil := none, name := .normal ['x'] })⟩
+  have := rel_label_plus_glue
+  simp only at this
+  rw [this.2.1] at h1
+  simp only [Outcome.ok.injEq] at h1
+  subst h1
+  rw [this.2.2.1] at h2
+  cases h2
+
+/-- What is proved of `stmts_parse_back_full`: on the token level, for the statements / blocks of
+`OKS` / `OKB`, at every width at which the formatter does not panic, the written tokens parse back
+to the same statement; printing again gives the same tokens inside `IdemK`.
+Missing: that the joined text lexes to the written tokens (compared with the real lexer on every
+generated statement; false at `+ ++x:` and at the glue sites of the expressions inside), items
+(`const` declarations, functions, `script`, `meta`), float digits, comments. -/
+theorem stmts_parse_back_partial :
+    (∀ s, OKS s = true → parseStmt (printStmt s) = some (normS s)) ∧
+    (∀ b, OKB b = true → parseBlock (printBlock b) = some (normB b)) ∧
+    (∀ s, IdemK s.kind = true → printStmt (normS s) = printStmt s) ∧
+    (∀ w s ps, renderStmtPieces w s = .ok ps → commaTok (ess ps) = tokTexts (printStmt s)) ∧
+    (∀ w b ps, renderBlockPieces w b = .ok ps → commaTok (ess ps) = tokTexts (printBlock b)) :=
+  ⟨stmt_print_parse, block_print_parse, stmt_print_idempotent, stmt_layout_tokens, block_layout_tokens⟩
+
+
+/-! ## when the label assertion cannot fire
+
+The formatter's only panic on statements is a line break inside a label written in the margin;
+a line break needs an argument list.  A statement whose interrupt labels and relative time labels
+contain no call is therefore printed at every width. -/
+
+mutual
+/-- the expression contains no call (no argument list that could be broken) -/
+def noCall : Expr → Bool
+  | .ternary c l r => noCall c && noCall l && noCall r
+  | .binop a _ b => noCall a && noCall b
+  | .unop _ x => noCall x
+  | .call _ _ _ => false
+  | .diffSwitch cs => noCallCs cs
+  | _ => true
+def noCallCs : Cases → Bool
+  | .nil => true
+  | .blank cs => noCallCs cs
+  | .some e cs => noCall e && noCallCs cs
+end
+
+mutual
+/-- no argument list among the documents -/
+def flatD : XDoc → Bool
+  | .tok _ => true
+  | .sp => true
+  | .args _ => false
+  | .seq ds => flatDs ds
+def flatDs : XDocs → Bool
+  | .nil => true
+  | .cons d ds => flatD d && flatDs ds
+end
+
+theorem nlCount_append (a b : List Piece) : nlCount (a ++ b) = nlCount a + nlCount b := by
+  simp [nlCount, List.filter_append]
+
+theorem nlCount_xw (st : LSt) (p : Piece) (hp : p ≠ .nl) : nlCount (xw st p).out = nlCount st.out := by
+  have h1 : nlCount [p] = 0 := by
+    cases p <;> simp_all [nlCount]
+  unfold xw
+  split
+  · simp only [nlCount_append]
+    have : nlCount [Piece.pad st.indent, p] = 0 := by
+      cases p <;> simp_all [nlCount]
+    omega
+  · simp only [nlCount_append]; omega
+
+mutual
+theorem xblk_flat (tw : Nat) : ∀ (d : XDoc) (st : LSt), flatD d = true → nlCount (xblk tw d st).out = nlCount st.out
+  | .tok k, st, _ => by simp only [xblk]; exact nlCount_xw st _ (by simp)
+  | .sp, st, _ => by simp only [xblk]; exact nlCount_xw st _ (by simp)
+  | .args items, st, h => by simp [flatD] at h
+  | .seq ds, st, h => by
+    simp only [flatD] at h
+    simp only [xblk]
+    exact xblkSeq_flat tw ds st h
+theorem xblkSeq_flat (tw : Nat) : ∀ (ds : XDocs) (st : LSt), flatDs ds = true → nlCount (xblkSeq tw ds st).out = nlCount st.out
+  | .nil, st, _ => rfl
+  | .cons d ds, st, h => by
+    simp only [flatDs, Bool.and_eq_true] at h
+    simp only [xblkSeq]
+    rw [xblkSeq_flat tw ds _ h.2, xblk_flat tw d st h.1]
+end
+
+theorem flat_append : ∀ (a b : XDocs), flatDs (a.append b) = (flatDs a && flatDs b)
+  | .nil, b => by simp [XDocs.append, flatDs]
+  | .cons d ds, b => by simp [XDocs.append, flatDs, flat_append ds b, Bool.and_assoc]
+
+theorem flat_ofToks : ∀ (l : List Tok), flatDs (XDocs.ofToks l) = true
+  | [] => rfl
+  | t :: r => by simp [XDocs.ofToks, flatDs, flatD, flat_ofToks r]
+
+theorem flat_wrapD (sup : Bool) (ds : XDocs) (h : flatDs ds = true) : flatDs (wrapD sup ds) = true := by
+  cases sup <;> simp [wrapD, flatDs, flatD, flat_append, h]
+
+theorem flat_spTokSp (t : Tok) (rest : XDocs) (h : flatDs rest = true) : flatDs (spTokSp t rest) = true := by
+  simp [spTokSp, flatDs, flatD, h]
+
+mutual
+theorem exprDocs_flat : ∀ (e : Expr) (sup : Bool), noCall e = true → flatDs (exprDocs sup e) = true
+  | .ternary c l r, sup, h => by
+    simp only [noCall, Bool.and_eq_true] at h
+    simp only [exprDocs]
+    apply flat_wrapD
+    rw [flat_append, exprDocs_flat c false h.1.1]
+    simp [flat_spTokSp, flat_append, exprDocs_flat l false h.1.2, exprDocs_flat r false h.2]
+  | .binop a op b, sup, h => by
+    simp only [noCall, Bool.and_eq_true] at h
+    simp only [exprDocs]
+    apply flat_wrapD
+    rw [flat_append, exprDocs_flat a false h.1]
+    simp [flat_spTokSp, exprDocs_flat b false h.2]
+  | .unop op x, sup, h => by
+    simp only [noCall] at h
+    simp only [exprDocs]
+    split
+    · apply flat_wrapD
+      simp [flatDs, flatD, exprDocs_flat x false h]
+    · simp [flatDs, flatD, flat_append, exprDocs_flat x true h]
+  | .xcrement pre inc v, sup, _ => by simp only [exprDocs]; exact flat_ofToks _
+  | .var v, sup, _ => by simp only [exprDocs]; exact flat_ofToks _
+  | .call name ps as, sup, h => by simp [noCall] at h
+  | .diffSwitch cs, sup, h => by
+    simp only [noCall] at h
+    simp only [exprDocs]
+    apply flat_wrapD
+    have hc := caseDocs_flat cs h
+    split <;> split <;> simp [flat_append, flatDs, flatD, hc]
+  | .litInt v f, sup, _ => by simp only [exprDocs]; exact flat_ofToks _
+  | .litFloat neg b, sup, _ => by simp only [exprDocs]; exact flat_ofToks _
+  | .litString s, sup, _ => by simp [exprDocs, flatDs, flatD]
+  | .labelProp kw l, sup, _ => by simp only [exprDocs]; exact flat_ofToks _
+  | .enumConst en id, sup, _ => by simp only [exprDocs]; exact flat_ofToks _
+theorem caseDocs_flat : ∀ (cs : Cases), noCallCs cs = true → flatDs (caseDocs cs) = true
+  | .nil, _ => rfl
+  | .blank cs, h => by
+    simp only [noCallCs] at h
+    simp only [caseDocs]; exact caseDocsT_flat cs h
+  | .some e cs, h => by
+    simp only [noCallCs, Bool.and_eq_true] at h
+    simp [caseDocs, flat_append, exprDocs_flat e false h.1, caseDocsT_flat cs h.2]
+theorem caseDocsT_flat : ∀ (cs : Cases), noCallCs cs = true → flatDs (caseDocsT cs) = true
+  | .nil, _ => rfl
+  | .blank cs, h => by
+    simp only [noCallCs] at h
+    simp only [caseDocsT]; exact flat_spTokSp _ _ (caseDocsT_flat cs h)
+  | .some e cs, h => by
+    simp only [noCallCs, Bool.and_eq_true] at h
+    simp only [caseDocsT]
+    apply flat_spTokSp
+    simp [flat_append, exprDocs_flat e false h.1, caseDocsT_flat cs h.2]
+end
+
+/-- a label without argument lists is written without tripping the assertion -/
+theorem label_ok (tw : Nat) (ds : XDocs) (st : FSt) (h : flatDs ds = true) : ∃ st', st.label tw ds = .ok st' := by
+  unfold FSt.label
+  split
+  · dsimp only
+    rw [if_pos (xblkSeq_flat tw ds _ h)]
+    exact ⟨_, rfl⟩
+  · exact ⟨_, rfl⟩
+
+mutual
+/-- the interrupt labels and relative time labels of the statement contain no call -/
+def FlatK : Kind → Bool
+  | .condChain _ _ b rest => FlatB b && FlatC rest
+  | .loop b => FlatB b
+  | .while_ _ b => FlatB b
+  | .doWhile b _ => FlatB b
+  | .times _ _ b => FlatB b
+  | .block b => FlatB b
+  | .interrupt e => noCall e
+  | .relTime d => noCall d
+  | _ => true
+def FlatB : Block → Bool
+  | .nil => true
+  | .cons _ k rest => FlatK k && FlatB rest
+def FlatC : Chain → Bool
+  | .nil => true
+  | .els b => FlatB b
+  | .elif _ _ b rest => FlatB b && FlatC rest
+end
+
+mutual
+theorem rKind_ok (tw : Nat) : ∀ (k : Kind) (st : FSt), FlatK k = true → ∃ st', rKind tw k st = .ok st'
+  | .jump j, st, _ => ⟨_, rfl⟩
+  | .ret none, st, _ => ⟨_, rfl⟩
+  | .ret (some e), st, _ => ⟨_, rfl⟩
+  | .condJump kw c j, st, _ => ⟨_, rfl⟩
+  | .condChain kw c b ch, st, h => by
+    simp only [FlatK, Bool.and_eq_true] at h
+    obtain ⟨st1, h1⟩ := rItems_ok tw b (st.docs tw (condDocs kw.tok c)).openB h.1
+    obtain ⟨st2, h2⟩ := rChain_ok tw ch st1.closeB h.2
+    exact ⟨st2, by simp only [rKind, h1, h2]⟩
+  | .loop b, st, h => by
+    obtain ⟨st1, h1⟩ := rItems_ok tw b (st.docs tw (XDocs.ofList [tk tLoop, .sp])).openB (by simpa [FlatK] using h)
+    exact ⟨_, by first | (simp only [rKind, h1]; done) | (simp only [rKind, h1]; rfl)⟩
+  | .while_ c b, st, h => by
+    obtain ⟨st1, h1⟩ := rItems_ok tw b (st.docs tw (condDocs tWhile c)).openB (by simpa [FlatK] using h)
+    exact ⟨_, by first | (simp only [rKind, h1]; done) | (simp only [rKind, h1]; rfl)⟩
+  | .doWhile b c, st, h => by
+    obtain ⟨st1, h1⟩ := rItems_ok tw b (st.docs tw (XDocs.ofList [tk tDo, .sp])).openB (by simpa [FlatK] using h)
+    exact ⟨_, by first | (simp only [rKind, h1]; done) | (simp only [rKind, h1]; rfl)⟩
+  | .times clb n b, st, h => by
+    obtain ⟨st1, h1⟩ := rItems_ok tw b (st.docs tw (.cons (tk tTimes) (.cons (tk tLp)
+        ((clobberDocs clb).append ((exprDocs true n).append (XDocs.ofList [tk tRp, .sp])))))).openB (by simpa [FlatK] using h)
+    exact ⟨_, by first | (simp only [rKind, h1]; done) | (simp only [rKind, h1]; rfl)⟩
+  | .expr e, st, _ => ⟨_, rfl⟩
+  | .block b, st, h => by
+    obtain ⟨st1, h1⟩ := rItems_ok tw b st.openB (by simpa [FlatK] using h)
+    exact ⟨_, by first | (simp only [rKind, h1]; done) | (simp only [rKind, h1]; rfl)⟩
+  | .assign v op e, st, _ => ⟨_, rfl⟩
+  | .decl ty vars, st, _ => ⟨_, rfl⟩
+  | .callSub atSym as fn args, st, _ => ⟨_, rfl⟩
+  | .label n, st, _ => by
+    obtain ⟨st1, h1⟩ := label_ok tw (XDocs.ofList [tk (.word n), tk tColon]) st (by simp [XDocs.ofList, flatDs, flatD, tk])
+    exact ⟨_, by first | (simp only [rKind, h1]; done) | (simp only [rKind, h1]; rfl)⟩
+  | .interrupt e, st, h => by
+    have he : noCall e = true := by simpa [FlatK] using h
+    obtain ⟨st1, h1⟩ := label_ok tw (.cons (tk tInterrupt) (.cons (tk tLb) ((exprDocs false e).append (XDocs.ofList [tk tRb, tk tColon]))))
+      (if st.prevInt then st else st.nextLine) (by simp [XDocs.ofList, flatDs, flatD, tk, flat_append, exprDocs_flat e false he])
+    exact ⟨_, by first | (simp only [rKind, h1]; done) | (simp only [rKind, h1]; rfl)⟩
+  | .absTime t, st, _ => by
+    obtain ⟨st1, h1⟩ := label_ok tw ((XDocs.ofToks (numToks (printI32 t))).append (.cons (tk tColon) .nil)) st
+      (by simp [flatDs, flatD, tk, flat_append, flat_ofToks])
+    exact ⟨_, by first | (simp only [rKind, h1]; done) | (simp only [rKind, h1]; rfl)⟩
+  | .relTime d, st, h => by
+    have hd' : noCall d = true := by simpa [FlatK] using h
+    obtain ⟨st1, h1⟩ := label_ok tw (.cons (tk tPlus) ((exprDocs false d).append (.cons (tk tColon) .nil))) st
+      (by simp [flatDs, flatD, tk, flat_append, exprDocs_flat d false hd'])
+    exact ⟨_, by first | (simp only [rKind, h1]; done) | (simp only [rKind, h1]; rfl)⟩
+theorem rItems_ok (tw : Nat) : ∀ (b : Block) (st : FSt), FlatB b = true → ∃ st', rItems tw b st = .ok st'
+  | .nil, st, _ => ⟨_, rfl⟩
+  | .cons d k b, st, h => by
+    simp only [FlatB, Bool.and_eq_true] at h
+    obtain ⟨st1, h1⟩ := rKind_ok tw k (st.docs tw (diffDocs d)) h.1
+    obtain ⟨st2, h2⟩ := rItems_ok tw b st1.nextLine h.2
+    exact ⟨st2, by simp only [rItems, h1, h2]⟩
+theorem rChain_ok (tw : Nat) : ∀ (c : Chain) (st : FSt), FlatC c = true → ∃ st', rChain tw c st = .ok st'
+  | .nil, st, _ => ⟨_, rfl⟩
+  | .els b, st, h => by
+    obtain ⟨st1, h1⟩ := rItems_ok tw b (st.docs tw (XDocs.ofList [.sp, tk tElse, .sp])).openB (by simpa [FlatC] using h)
+    exact ⟨_, by first | (simp only [rChain, h1]; done) | (simp only [rChain, h1]; rfl)⟩
+  | .elif kw c b ch, st, h => by
+    simp only [FlatC, Bool.and_eq_true] at h
+    obtain ⟨st1, h1⟩ := rItems_ok tw b (st.docs tw (.cons .sp (.cons (tk tElse) (.cons .sp (condDocs kw.tok c))))).openB h.1
+    obtain ⟨st2, h2⟩ := rChain_ok tw ch st1.closeB h.2
+    exact ⟨st2, by simp only [rChain, h1, h2]⟩
+end
+
+/-- a statement whose labels contain no call is printed at every width -/
+theorem stmt_renders (w : Nat) (s : Stmt) (h : FlatK s.kind = true) : ∃ ps, renderStmtPieces w s = .ok ps := by
+  obtain ⟨st, hst⟩ := rKind_ok (w - 1) s.kind (FSt.init.docs (w - 1) (diffDocs s.diff)) h
+  exact ⟨st.l.out, by simp only [renderStmtPieces, hst]⟩
+
+theorem block_renders (w : Nat) (b : Block) (h : FlatB b = true) : ∃ ps, renderBlockPieces w b = .ok ps := by
+  obtain ⟨st, hst⟩ := rItems_ok (w - 1) b FSt.init.openB h
+  exact ⟨st.closeB.l.out, by simp only [renderBlockPieces, hst]⟩
+
+/-- **C08, statements at every width, unconditionally for statements whose labels hold no call**:
+the formatter prints the statement at every width, and the tokens of that text parse back to it -/
+theorem stmt_print_parse_every_width (w : Nat) (s : Stmt) (hok : OKS s = true) (hfl : FlatK s.kind = true) :
+    ∃ ps toks, renderStmtPieces w s = .ok ps ∧ commaTok (ess ps) = tokTexts toks ∧ parseStmt toks = some (normS s) := by
+  obtain ⟨ps, hps⟩ := stmt_renders w s hfl
+  exact ⟨ps, printStmt s, hps, stmt_layout_tokens w s ps hps, stmt_print_parse s hok⟩
+
+theorem block_print_parse_every_width (w : Nat) (b : Block) (hok : OKB b = true) (hfl : FlatB b = true) :
+    ∃ ps toks, renderBlockPieces w b = .ok ps ∧ commaTok (ess ps) = tokTexts toks ∧ parseBlock toks = some (normB b) := by
+  obtain ⟨ps, hps⟩ := block_renders w b hfl
+  exact ⟨ps, printBlock b, hps, block_layout_tokens w b ps hps, block_print_parse b hok⟩
+
+example : OKS sStmt = true ∧ FlatK sStmt.kind = true ∧ FlatK (Kind.interrupt sCall) = false := by decide +kernel
+
 
 end TruthModel.C08
